@@ -32,11 +32,35 @@ Qed.
 Lemma str_list_eqb_spec a b : list_eqb String.eqb a b = true <-> a = b.
 Proof. apply list_eqb_spec. intros x y. apply String.eqb_eq. Qed.
 
+Lemma ign_eqb_spec a b : ign_eqb a b = true <-> a = b.
+Proof.
+  destruct a, b; simpl; try (split; congruence).
+  - rewrite String.eqb_eq. split; [intros ->; reflexivity|intros [= ->]; auto].
+  - rewrite andb_true_iff, !String.eqb_eq. split; [intros [-> ->]; reflexivity|intros [= -> ->]; auto].
+  - rewrite String.eqb_eq. split; [intros ->; reflexivity|intros [= ->]; auto].
+Qed.
+
+Lemma fkind_eqb_spec a b : fkind_eqb a b = true <-> a = b.
+Proof.
+  destruct a, b; simpl; try (split; congruence).
+  rewrite N.eqb_eq. split; [intros ->; reflexivity|intros [= ->]; auto].
+Qed.
+
+Lemma fnodes_eqb_spec a b :
+  list_eqb (fun x y : name * fkind => String.eqb (fst x) (fst y) && fkind_eqb (snd x) (snd y)) a b = true
+  <-> a = b.
+Proof.
+  apply list_eqb_spec. intros [n k] [n' k']. simpl.
+  rewrite andb_true_iff, String.eqb_eq, fkind_eqb_spec.
+  split; [intros [-> ->]; reflexivity|intros [= -> ->]; auto].
+Qed.
+
 Lemma rdigest_eqb_spec a b : rdigest_eqb a b = true <-> a = b.
 Proof.
   destruct a, b; simpl; try (split; congruence).
-  - rewrite !andb_true_iff, String.eqb_eq, !str_list_eqb_spec, (list_eqb_spec sel_eqb sel_eqb_spec).
-    split; [intros [[[-> ->] ->] ->]; reflexivity|intros [= -> -> -> ->]; auto].
+  - rewrite !andb_true_iff, String.eqb_eq, !str_list_eqb_spec, (list_eqb_spec sel_eqb sel_eqb_spec),
+      (list_eqb_spec ign_eqb ign_eqb_spec).
+    split; [intros [[[[-> ->] ->] ->] ->]; reflexivity|intros [= -> -> -> -> ->]; auto].
   - rewrite String.eqb_eq. split; [intros ->; reflexivity|intros [= ->]; auto].
 Qed.
 
@@ -52,9 +76,9 @@ Proof.
   - intros nm s [nm' s'| |]; simpl; try (split; congruence).
     rewrite andb_true_iff, String.eqb_eq, stat_eqb_spec.
     split; [intros [-> ->]; reflexivity|intros [= -> ->]; auto].
-  - intros rd deps IH outs [|rd' deps' outs'|]; simpl; try (split; congruence).
-    rewrite !andb_true_iff, rdigest_eqb_spec, IH, str_list_eqb_spec.
-    split; [intros [[-> ->] ->]; reflexivity|intros [= -> -> ->]; auto].
+  - intros rd deps IH outs fn [|rd' deps' outs' fn'|]; simpl; try (split; congruence).
+    rewrite !andb_true_iff, rdigest_eqb_spec, IH, str_list_eqb_spec, fnodes_eqb_spec.
+    split; [intros [[[-> ->] ->] ->]; reflexivity|intros [= -> -> -> ->]; auto].
   - intros deps IH o [| |deps' o']; simpl; try (split; congruence).
     rewrite andb_true_iff, IH, String.eqb_eq.
     split; [intros [-> ->]; reflexivity|intros [= -> ->]; auto].
@@ -232,7 +256,11 @@ Section Spec.
                       end
             | TRule =>
                 match find_rule nm rules, collect (sdig f) (ndeps n) with
-                | Some r, Some dd => Some (DRuleD (rdigest_of r) (canon_deps dd) (node_outs rules n))
+                | Some r, Some dd =>
+                    match rule_extras L (map fst src) [] r with
+                    | inl ex => Some (DRuleD (rdigest_of r) (canon_deps dd) (node_outs rules n) ex)
+                    | inr _ => None
+                    end
                 | _, _ => None
                 end
             end
@@ -255,8 +283,8 @@ Section Spec.
         match find_rule nm rules with
         | Some r =>
             match r_kind r with
-            | KFileSet files sels incs =>
-                match expand_files (map fst src) files sels with
+            | KFileSet files sels igns incs =>
+                match expand_files (map fst src) files sels igns with
                 | Some fl => Some (fileset_content L rules src (spec_outs (scont f) incs) fl incs)
                 | None => None
                 end
@@ -381,9 +409,9 @@ Section ContentExt.
   Lemma includes_entries_ok out incs l :
     includes_entries L rules out incs = inl l ->
     forall i, In i incs ->
-      exists n r files sels incs' li s,
+      exists n r files sels igns' incs' li s,
         find_node i L = Some n /\ ntype n = TRule /\ find_rule i rules = Some r /\
-        r_kind r = KFileSet files sels incs' /\
+        r_kind r = KFileSet files sels igns' incs' /\
         lookup (fileset_out i) out = Some (CList li, s).
   Proof.
     revert l. induction incs as [|j incs IH]; intros l H i Hi; [destruct Hi|].
@@ -394,17 +422,17 @@ Section ContentExt.
     destruct (find_node j L) as [n|] eqn:Hn; [|discriminate].
     destruct (ntype n) eqn:Hty; try discriminate.
     destruct (find_rule j rules) as [r|] eqn:Hr; [|discriminate].
-    destruct (r_kind r) as [files sels incs'|] eqn:Hk; [|discriminate].
+    destruct (r_kind r) as [files sels igns' incs'|] eqn:Hk; [|discriminate].
     destruct (lookup (fileset_out j) out) as [[[li|] s]|] eqn:Hl; try discriminate.
-    exists n, r, files, sels, incs', li, s. auto.
+    exists n, r, files, sels, igns', incs', li, s. auto.
   Qed.
 
   Lemma fileset_content_ok out fl incs l :
     fileset_content L rules src out fl incs = inl l ->
     forall i, In i incs ->
-      exists n r files sels incs' li s,
+      exists n r files sels igns' incs' li s,
         find_node i L = Some n /\ ntype n = TRule /\ find_rule i rules = Some r /\
-        r_kind r = KFileSet files sels incs' /\
+        r_kind r = KFileSet files sels igns' incs' /\
         lookup (fileset_out i) out = Some (CList li, s).
   Proof.
     unfold fileset_content. intros H.
@@ -469,23 +497,21 @@ Proof.
 Qed.
 
 (** A loaded list [L] together with the rules and sources it was loaded from.
-    The last two clauses are the scope restrictions of the model: file sets
-    list source files, not outputs; and no rule or output bears the name of a
-    source file (the loader would silently prefer the rule). *)
+    [wg_noout] is the scope restriction of the theorems: file sets list
+    source files, not outputs. *)
 Record wfG (L : list node) (rules : list rule) (src : list (name * stat)) : Prop := mkWf {
   wg_wf : wf_loaded L;
   wg_rule : forall n, In n L -> ntype n = TRule ->
       exists r, find_rule (nname n) rules = Some r /\
         match r_kind r with
-        | KFileSet files sels incs =>
-            exists fl, expand_files (map fst src) files sels = Some fl /\
+        | KFileSet files sels igns incs =>
+            exists fl, expand_files (map fst src) files sels igns = Some fl /\
                        ndeps n = (fl ++ incs)%list
         | KBundle deps => ndeps n = deps
         end;
-  wg_noout : forall nm r files sels incs fl,
-      find_rule nm rules = Some r -> r_kind r = KFileSet files sels incs ->
-      expand_files (map fst src) files sels = Some fl -> no_out_files L fl;
-  wg_noshadow : forall n, In n L -> ntype n <> TSrc -> lookup (nname n) src = None;
+  wg_noout : forall nm r files sels igns incs fl,
+      find_rule nm rules = Some r -> r_kind r = KFileSet files sels igns incs ->
+      expand_files (map fst src) files sels igns = Some fl -> no_out_files L fl;
   wg_src : forall n, In n L -> ntype n = TSrc -> exists s, lookup (nname n) src = Some s
 }.
 
@@ -501,13 +527,13 @@ Section SpecMono2.
     induction f as [|f IH]; intros nm l H; [discriminate|].
     remember (S f) as f1. simpl. subst f1. simpl in H.
     destruct (find_rule nm rules) as [r|] eqn:Hr; [|discriminate].
-    destruct (r_kind r) as [files sels incs|] eqn:Hk; [|discriminate].
-    destruct (expand_files (map fst src) files sels) as [fl|] eqn:He; [|discriminate].
+    destruct (r_kind r) as [files sels igns incs|] eqn:Hk; [|discriminate].
+    destruct (expand_files (map fst src) files sels igns) as [fl|] eqn:He; [|discriminate].
     injection H as H. f_equal. rewrite <- H. symmetry.
     apply fileset_content_ext; [eapply wg_noout; eauto|].
     intros i Hi. unfold content_at.
     destruct (fileset_content_ok _ _ _ _ _ _ _ H i Hi)
-      as (n & r' & fs' & ss' & is' & li & s & _ & _ & _ & _ & Hl).
+      as (n & r' & fs' & ss' & gs' & is' & li & s & _ & _ & _ & _ & Hl).
     rewrite Hl. rewrite lookup_spec_outs in Hl |- *.
     destruct (mem i incs); [|discriminate].
     destruct (scont L rules src f i) as [[l'|e]|] eqn:Ei; try discriminate.
@@ -532,12 +558,12 @@ Section SdigShape.
   Variable rules : list rule.
   Variable src : list (name * stat).
 
-  Lemma sdig_rule_inv f x rd dl outs :
-    sdig L rules src f x = Some (DRuleD rd dl outs) ->
+  Lemma sdig_rule_inv f x rd dl outs ex :
+    sdig L rules src f x = Some (DRuleD rd dl outs ex) ->
     exists f' n r dd, f = S f' /\ find_node x L = Some n /\ ntype n = TRule /\
       find_rule x rules = Some r /\ rd = rdigest_of r /\
       collect (sdig L rules src f') (ndeps n) = Some dd /\ dl = canon_deps dd /\
-      outs = node_outs rules n.
+      outs = node_outs rules n /\ rule_extras L (map fst src) [] r = inl ex.
   Proof.
     destruct f as [|f']; [discriminate|]. simpl.
     destruct (find_node x L) as [n|] eqn:Hn; [|discriminate].
@@ -545,7 +571,8 @@ Section SdigShape.
     - destruct (lookup x src); discriminate.
     - destruct (find_rule x rules) as [r|] eqn:Hr; [|discriminate].
       destruct (collect (sdig L rules src f') (ndeps n)) as [dd|] eqn:Hc; [|discriminate].
-      intros [= <- <- <-]. exists f', n, r, dd. auto 10.
+      destruct (rule_extras L (map fst src) [] r) as [ex'|] eqn:He; [|discriminate].
+      intros [= <- <- <- <-]. exists f', n, r, dd. auto 12.
     - destruct (collect (sdig L rules src f') (ndeps n)); discriminate.
   Qed.
 
@@ -558,8 +585,9 @@ Section SdigShape.
     destruct (ntype n) eqn:Hty.
     - destruct (lookup x src) as [s'|] eqn:Hs; [|discriminate].
       intros [= <- <-]. split; [reflexivity|]. exists n. auto.
-    - destruct (find_rule x rules); [|discriminate].
-      destruct (collect (sdig L rules src f') (ndeps n)); discriminate.
+    - destruct (find_rule x rules) as [r|]; [|discriminate].
+      destruct (collect (sdig L rules src f') (ndeps n)); [|discriminate].
+      destruct (rule_extras L (map fst src) [] r); discriminate.
     - destruct (collect (sdig L rules src f') (ndeps n)); discriminate.
   Qed.
 
@@ -574,13 +602,15 @@ Section SdigShape.
   Lemma sdig_of_rule f x n r d :
     find_node x L = Some n -> ntype n = TRule -> find_rule x rules = Some r ->
     sdig L rules src f x = Some d ->
-    exists f' dd, f = S f' /\ collect (sdig L rules src f') (ndeps n) = Some dd /\
-                  d = DRuleD (rdigest_of r) (canon_deps dd) (node_outs rules n).
+    exists f' dd ex, f = S f' /\ collect (sdig L rules src f') (ndeps n) = Some dd /\
+                  rule_extras L (map fst src) [] r = inl ex /\
+                  d = DRuleD (rdigest_of r) (canon_deps dd) (node_outs rules n) ex.
   Proof.
     intros Hn Hty Hr. destruct f as [|f']; [discriminate|]. simpl.
     rewrite Hn, Hty, Hr.
     destruct (collect (sdig L rules src f') (ndeps n)) as [dd|] eqn:Hc; [|discriminate].
-    intros [= <-]. exists f', dd. repeat split; auto.
+    destruct (rule_extras L (map fst src) [] r) as [ex|] eqn:He; [|discriminate].
+    intros [= <-]. exists f', dd, ex. repeat split; auto.
   Qed.
 End SdigShape.
 
@@ -614,13 +644,13 @@ Qed.
 
 (** [includes_entries] when every include is a built file set. *)
 Lemma includes_entries_fs L rules out incs (li : name -> list entry) :
-  (forall i, In i incs -> exists n r files sels incs' s,
+  (forall i, In i incs -> exists n r files sels igns' incs' s,
      find_node i L = Some n /\ ntype n = TRule /\ find_rule i rules = Some r /\
-     r_kind r = KFileSet files sels incs' /\ lookup (fileset_out i) out = Some (CList (li i), s)) ->
+     r_kind r = KFileSet files sels igns' incs' /\ lookup (fileset_out i) out = Some (CList (li i), s)) ->
   includes_entries L rules out incs = inl (flat_map li incs).
 Proof.
   induction incs as [|i incs IH]; intros H; simpl; [reflexivity|].
-  destruct (H i (or_introl eq_refl)) as (n & r & fs & ss & is' & s & Hn & Hty & Hr & Hk & Hl).
+  destruct (H i (or_introl eq_refl)) as (n & r & fs & ss & gs & is' & s & Hn & Hty & Hr & Hk & Hl).
   unfold include_entries. rewrite Hn, Hty, Hr, Hk, Hl.
   rewrite IH; [reflexivity|]. intros j Hj. apply H. now right.
 Qed.
@@ -639,16 +669,18 @@ Proof.
     + apply (Hm f); [lia|auto].
 Qed.
 
-Lemma expand_files_In names files sels fl k :
-  expand_files names files sels = Some fl ->
-  (In k fl <-> In k files \/ (In k names /\ existsb (fun s => sel_matches s k) sels = true)).
+Lemma expand_files_In names files sels igns fl k :
+  expand_files names files sels igns = Some fl ->
+  (In k fl <-> In k files \/
+               (In k names /\ existsb (fun s => sel_matches s k) sels = true /\ ignored igns k = false)).
 Proof.
   unfold expand_files. destruct (forallb _ sels); [|discriminate]. intros [= <-].
-  rewrite sort_dedup_In, in_app_iff, filter_In. reflexivity.
+  rewrite sort_dedup_In, in_app_iff, filter_In. cbv beta.
+  rewrite andb_true_iff, negb_true_iff. reflexivity.
 Qed.
 
-Lemma expand_files_ssorted names files sels fl :
-  expand_files names files sels = Some fl -> ssorted fl.
+Lemma expand_files_ssorted names files sels igns fl :
+  expand_files names files sels igns = Some fl -> ssorted fl.
 Proof.
   unfold expand_files. destruct (forallb _ sels); [|discriminate]. intros [= <-].
   apply sort_dedup_ssorted.
@@ -664,6 +696,51 @@ Lemma In_fst_lookup {A} k (l : list (name * A)) : In k (map fst l) -> exists v, 
 Proof.
   induction l as [|[k' v'] l IH]; simpl; [intros []|].
   destruct (String.eqb_spec k k'); [eauto|]. intros [E|H]; [congruence|auto].
+Qed.
+
+(** [fileNodes] is empty exactly when every listed file is a source node. *)
+Lemma extras_of_src L out fl :
+  (forall k, In k fl -> exists n, find_node k L = Some n /\ ntype n = TSrc) ->
+  extras_of L out fl = inl [].
+Proof.
+  induction fl as [|k fl IH]; intros H; simpl; [reflexivity|].
+  rewrite IH; [|intros j Hj; apply H; now right].
+  destruct (H k (or_introl eq_refl)) as (n & -> & ->). reflexivity.
+Qed.
+
+Lemma extras_of_nil L out fl :
+  extras_of L out fl = inl [] ->
+  forall k, In k fl -> exists n, find_node k L = Some n /\ ntype n = TSrc.
+Proof.
+  induction fl as [|j fl IH]; intros H k Hk; [destruct Hk|].
+  simpl in H. destruct (extras_of L out fl) as [rest|]; [|discriminate].
+  destruct (find_node j L) as [n|] eqn:Hn; [|discriminate].
+  destruct (ntype n) eqn:Hty.
+  - destruct Hk as [<-|Hk]; [eauto|]. apply IH; [exact H|assumption].
+  - discriminate.
+  - destruct (lookup j out) as [[c st]|]; discriminate.
+Qed.
+
+(** without output files among them, [fileNodes] does not look at out/ *)
+Lemma extras_of_ext L out out' fl :
+  no_out_files L fl -> extras_of L out fl = extras_of L out' fl.
+Proof.
+  induction fl as [|k fl IH]; intros Hno; simpl; [reflexivity|].
+  rewrite IH; [|intros g n Hg; apply Hno; now right].
+  destruct (extras_of L out' fl); [|reflexivity].
+  destruct (find_node k L) as [n|] eqn:Hn; [|reflexivity].
+  destruct (ntype n) eqn:Hty; try reflexivity.
+  exfalso. exact (Hno k n (or_introl eq_refl) Hn Hty).
+Qed.
+
+Lemma extras_of_total L out fl :
+  no_out_files L fl -> exists ex, extras_of L out fl = inl ex.
+Proof.
+  induction fl as [|k fl IH]; intros Hno; simpl; [eauto|].
+  destruct IH as [rest ->]; [intros g n Hg; apply Hno; now right|].
+  destruct (find_node k L) as [n|] eqn:Hn; [|eauto].
+  destruct (ntype n) eqn:Hty; eauto.
+  exfalso. exact (Hno k n (or_introl eq_refl) Hn Hty).
 Qed.
 
 (** * The digest determines the output
@@ -683,30 +760,30 @@ Section Key.
   Lemma key_lemma : forall f x d,
     sdig L rules src f x = Some d ->
     forall f0 x0, sdig L0 rules0 src0 f0 x0 = Some d ->
-    forall n r files sels incs,
+    forall n r files sels igns incs,
       find_node x L = Some n -> ntype n = TRule -> find_rule x rules = Some r ->
-      r_kind r = KFileSet files sels incs ->
+      r_kind r = KFileSet files sels igns incs ->
     forall g0 l0, scont L0 rules0 src0 g0 x0 = Some (inl l0) ->
     exists g, scont L rules src g x = Some (inl l0).
   Proof.
-    induction f as [|f' IH]; intros x d Hd f0 x0 Hd0 n r files sels incs Hn Hty Hr Hk g0 l0 Hc0;
+    induction f as [|f' IH]; intros x d Hd f0 x0 Hd0 n r files sels igns incs Hn Hty Hr Hk g0 l0 Hc0;
       [discriminate|].
     (* the digest in G *)
-    destruct (sdig_of_rule _ _ _ _ _ _ _ _ Hn Hty Hr Hd) as (f1 & dd & Ef & Hcol & ->).
+    destruct (sdig_of_rule _ _ _ _ _ _ _ _ Hn Hty Hr Hd) as (f1 & dd & ex & Ef & Hcol & Hexr & ->).
     injection Ef as <-.
     (* the same digest in G0 *)
-    destruct (sdig_rule_inv _ _ _ _ _ _ _ _ Hd0)
-      as (f0' & n0 & r0 & dd0 & -> & Hn0 & Hty0 & Hr0 & Hrd & Hcol0 & Hcan & Houts).
+    destruct (sdig_rule_inv _ _ _ _ _ _ _ _ _ Hd0)
+      as (f0' & n0 & r0 & dd0 & -> & Hn0 & Hty0 & Hr0 & Hrd & Hcol0 & Hcan & Houts & Hexr0).
     (* same rule definition *)
-    assert (Hk0 : r_kind r0 = KFileSet files sels incs /\ x = x0).
+    assert (Hk0 : r_kind r0 = KFileSet files sels igns incs /\ x = x0).
     { unfold rdigest_of in Hrd. rewrite Hk in Hrd.
       pose proof (find_rule_name _ _ _ Hr) as N1. pose proof (find_rule_name _ _ _ Hr0) as N2.
-      destruct (r_kind r0); [|discriminate]. injection Hrd as E1 E2 E3 E4. subst.
+      destruct (r_kind r0); [|discriminate]. injection Hrd as E1 E2 E3 E4 E5. subst.
       split; [reflexivity|congruence]. }
     destruct Hk0 as [Hk0 <-].
     (* the successful execution in G0 *)
     destruct g0 as [|g0']; [discriminate|]. simpl in Hc0. rewrite Hr0, Hk0 in Hc0.
-    destruct (expand_files (map fst src0) files sels) as [fl0|] eqn:Hex0; [|discriminate].
+    destruct (expand_files (map fst src0) files sels igns) as [fl0|] eqn:Hex0; [|discriminate].
     injection Hc0 as Hc0.
     (* dependencies of the two nodes *)
     assert (Hin : In n L) by (apply find_node_Some in Hn; tauto).
@@ -742,7 +819,7 @@ Section Key.
       destruct (mem k (fl ++ incs)) eqn:E; [|discriminate]. apply mem_In in E.
       split; [assumption|congruence]. }
     (* what the success in G0 tells *)
-    pose proof (wg_noout _ _ _ HG0 _ _ _ _ _ _ Hr0 Hk0 Hex0) as Hno0.
+    pose proof (wg_noout _ _ _ HG0 _ _ _ _ _ _ _ Hr0 Hk0 Hex0) as Hno0.
     unfold fileset_content in Hc0.
     destruct (file_entries L0 src0 (spec_outs (scont L0 rules0 src0 g0') incs) fl0)
       as [own0|] eqn:Hown0; [|discriminate].
@@ -751,31 +828,35 @@ Section Key.
     injection Hc0 as Hl0.
     pose proof (file_entries_ok_src _ _ _ _ _ Hno0 Hown0) as Hsrc0.
     pose proof (includes_entries_ok _ _ _ _ _ Hinc0) as Hincs0.
+    (* no listed file of G0 is anything but a source node, hence none of G *)
+    assert (Hex_nil : ex = []).
+    { unfold rule_extras in Hexr0. rewrite Hk0, Hex0 in Hexr0.
+      rewrite (extras_of_src L0 [] fl0) in Hexr0; [congruence|].
+      intros k Hk'. destruct (Hsrc0 k Hk') as (nk & sk & A & B & _). eauto. }
+    subst ex.
+    assert (Hsrc : forall k, In k fl -> exists nk, find_node k L = Some nk /\ ntype nk = TSrc).
+    { unfold rule_extras in Hexr. rewrite Hk, Hex in Hexr. now apply (extras_of_nil L []). }
     (* the same files *)
     assert (Hfl : fl = fl0).
     { apply ssorted_ext; [eapply expand_files_ssorted; eauto|eapply expand_files_ssorted; eauto|].
       intros k. split; intros Hk'.
       - destruct (Hmem k) as [Hk0' Hhk]; [apply in_app_iff; now left|].
         apply in_app_iff in Hk0'. destruct Hk0' as [Hk0'|Hk0']; [assumption|].
-        (* k is an include: a rule in G0, hence a rule in G; but it is a selected or listed file *)
-        destruct (Hincs0 k Hk0') as (nk & rk & fs' & ss' & is' & lk & sk & Hnk & Htk & Hrk & Hkk & _).
+        (* k would be an include: a rule in G0, hence a rule in G; but it is a source node *)
+        exfalso.
+        destruct (Hincs0 k Hk0') as (nk & rk & fs' & ss' & gs' & is' & lk & sk & Hnk & Htk & Hrk & Hkk & _).
         assert (Hdk0 : sdig L0 rules0 src0 f0' k = Some (h0 k)).
         { apply Hh0. rewrite Hnd0. apply in_app_iff. now right. }
-        destruct (sdig_of_rule _ _ _ _ _ _ _ _ Hnk Htk Hrk Hdk0) as (fk & ddk & _ & _ & Ehk).
+        destruct (sdig_of_rule _ _ _ _ _ _ _ _ Hnk Htk Hrk Hdk0) as (fk & ddk & exk & _ & _ & _ & Ehk).
         assert (Hdk : sdig L rules src f' k = Some (h k)).
         { apply Hh. rewrite Hnd. apply in_app_iff. now left. }
         rewrite Hhk, Ehk in Hdk.
-        destruct (sdig_rule_inv _ _ _ _ _ _ _ _ Hdk) as (_ & nk' & _ & _ & _ & Hnk' & Htk' & _).
-        apply (expand_files_In _ _ _ _ k Hex) in Hk'. destruct Hk' as [Hk'|[Hk' _]].
-        + apply (expand_files_In _ _ _ _ k Hex0). now left.
-        + exfalso. apply In_fst_lookup in Hk'. destruct Hk' as [v Hv].
-          assert (Hnone : lookup (nname nk') src = None).
-          { apply (wg_noshadow _ _ _ HG nk'); [apply find_node_Some in Hnk'; tauto|congruence]. }
-          apply find_node_Some in Hnk'. destruct Hnk' as [_ E]. rewrite E in Hnone. congruence.
+        destruct (sdig_rule_inv _ _ _ _ _ _ _ _ _ Hdk) as (_ & nk' & _ & _ & _ & Hnk' & Htk' & _).
+        destruct (Hsrc k Hk') as (nk2 & Hnk2 & Htk2). congruence.
       - destruct (Hmem0 k) as [Hk1 Hhk]; [apply in_app_iff; now left|].
         apply in_app_iff in Hk1. destruct Hk1 as [Hk1|Hk1]; [assumption|].
         exfalso. destruct (Hsrc0 k Hk') as (nk & sk & Hnk & Htk & _).
-        destruct (Hincs0 k Hk1) as (nk' & _ & _ & _ & _ & _ & _ & Hnk' & Htk' & _).
+        destruct (Hincs0 k Hk1) as (nk' & _ & _ & _ & _ & _ & _ & _ & Hnk' & Htk' & _).
         congruence. }
     subst fl0.
     (* the same stats *)
@@ -798,31 +879,31 @@ Section Key.
     (* the included lists *)
     set (li := fun i => match scont L0 rules0 src0 g0' i with Some (inl l) => l | _ => [] end).
     assert (Hinc_ok0 : forall i, In i incs ->
-               exists ni ri fs' ss' is', find_node i L0 = Some ni /\ ntype ni = TRule /\
-                 find_rule i rules0 = Some ri /\ r_kind ri = KFileSet fs' ss' is' /\
+               exists ni ri fs' ss' gs' is', find_node i L0 = Some ni /\ ntype ni = TRule /\
+                 find_rule i rules0 = Some ri /\ r_kind ri = KFileSet fs' ss' gs' is' /\
                  scont L0 rules0 src0 g0' i = Some (inl (li i))).
-    { intros i Hi. destruct (Hincs0 i Hi) as (ni & ri & fs' & ss' & is' & l' & s' & A & B & C & D & E).
-      exists ni, ri, fs', ss', is'. repeat split; auto.
+    { intros i Hi. destruct (Hincs0 i Hi) as (ni & ri & fs' & ss' & gs' & is' & l' & s' & A & B & C & D & E).
+      exists ni, ri, fs', ss', gs', is'. repeat split; auto.
       rewrite lookup_spec_outs in E. destruct (mem i incs); [|discriminate]. unfold li.
       destruct (scont L0 rules0 src0 g0' i) as [[l''|]|]; try discriminate. reflexivity. }
     assert (Hinc_ok : forall i, In i incs ->
-               exists g, (exists ni ri fs' ss' is', find_node i L = Some ni /\ ntype ni = TRule /\
-                 find_rule i rules = Some ri /\ r_kind ri = KFileSet fs' ss' is') /\
+               exists g, (exists ni ri fs' ss' gs' is', find_node i L = Some ni /\ ntype ni = TRule /\
+                 find_rule i rules = Some ri /\ r_kind ri = KFileSet fs' ss' gs' is') /\
                  scont L rules src g i = Some (inl (li i))).
-    { intros i Hi. destruct (Hinc_ok0 i Hi) as (ni & ri & fs' & ss' & is' & A & B & C & D & E).
+    { intros i Hi. destruct (Hinc_ok0 i Hi) as (ni & ri & fs' & ss' & gs' & is' & A & B & C & D & E).
       destruct (Hmem i) as [_ Hhi]; [apply in_app_iff; now right|].
       assert (Hdi0 : sdig L0 rules0 src0 f0' i = Some (h0 i)).
       { apply Hh0. rewrite Hnd0. apply in_app_iff. now right. }
       assert (Hdi : sdig L rules src f' i = Some (h i)).
       { apply Hh. rewrite Hnd. apply in_app_iff. now right. }
-      destruct (sdig_of_rule _ _ _ _ _ _ _ _ A B C Hdi0) as (fi & ddi & _ & _ & Ehi).
+      destruct (sdig_of_rule _ _ _ _ _ _ _ _ A B C Hdi0) as (fi & ddi & exi & _ & _ & _ & Ehi).
       rewrite Hhi in Hdi. pose proof Hdi as Hdi'. rewrite Ehi in Hdi'.
-      destruct (sdig_rule_inv _ _ _ _ _ _ _ _ Hdi') as (_ & ni' & ri' & _ & _ & A' & B' & C' & Erd & _).
-      assert (D' : exists fs2 ss2 is2, r_kind ri' = KFileSet fs2 ss2 is2).
+      destruct (sdig_rule_inv _ _ _ _ _ _ _ _ _ Hdi') as (_ & ni' & ri' & _ & _ & A' & B' & C' & Erd & _).
+      assert (D' : exists fs2 ss2 gs2 is2, r_kind ri' = KFileSet fs2 ss2 gs2 is2).
       { unfold rdigest_of in Erd. rewrite D in Erd. destruct (r_kind ri'); [eauto|discriminate]. }
-      destruct D' as (fs2 & ss2 & is2 & D').
-      destruct (IH i _ Hdi _ _ Hdi0 _ _ _ _ _ A' B' C' D' _ _ E) as [g Hg].
-      exists g. split; [|assumption]. exists ni', ri', fs2, ss2, is2. auto. }
+      destruct D' as (fs2 & ss2 & gs2 & is2 & D').
+      destruct (IH i _ Hdi _ _ Hdi0 _ _ _ _ _ _ A' B' C' D' _ _ E) as [g Hg].
+      exists g. split; [|assumption]. exists ni', ri', fs2, ss2, gs2, is2. auto. }
     destruct (uniform_fuel (fun g i => scont L rules src g i = Some (inl (li i))) incs) as [g Hg].
     { intros a b i Hab. now apply scont_mono. }
     { intros i Hi. destruct (Hinc_ok i Hi) as [g [_ Hg]]. eauto. }
@@ -832,11 +913,11 @@ Section Key.
     rewrite (includes_entries_fs L rules _ incs li).
     - rewrite (includes_entries_fs L0 rules0 _ incs li) in Hinc0.
       + injection Hinc0 as <-. now rewrite Hl0.
-      + intros i Hi. destruct (Hinc_ok0 i Hi) as (ni & ri & fs' & ss' & is' & A & B & C & D & E).
-        exists ni, ri, fs', ss', is', 0%N. repeat split; auto.
+      + intros i Hi. destruct (Hinc_ok0 i Hi) as (ni & ri & fs' & ss' & gs' & is' & A & B & C & D & E).
+        exists ni, ri, fs', ss', gs', is', 0%N. repeat split; auto.
         rewrite lookup_spec_outs. apply mem_In in Hi. now rewrite Hi, E.
-    - intros i Hi. destruct (Hinc_ok i Hi) as [_ [(ni & ri & fs' & ss' & is' & A & B & C & D) _]].
-      exists ni, ri, fs', ss', is', 0%N. repeat split; auto.
+    - intros i Hi. destruct (Hinc_ok i Hi) as [_ [(ni & ri & fs' & ss' & gs' & is' & A & B & C & D) _]].
+      exists ni, ri, fs', ss', gs', is', 0%N. repeat split; auto.
       rewrite lookup_spec_outs. pose proof (Hg i Hi) as E. apply mem_In in Hi. now rewrite Hi, E.
   Qed.
 End Key.
@@ -852,7 +933,7 @@ Definition entry_ok (out : list (name * (content * N))) (d : digest) (b : built)
     wfG L0 rules0 src0 /\ find_node x0 L0 = Some n0 /\ ntype n0 = TRule /\
     find_rule x0 rules0 = Some r0 /\ sdig L0 rules0 src0 f x0 = Some d /\
     match r_kind r0 with
-    | KFileSet _ _ _ =>
+    | KFileSet _ _ _ _ =>
         exists l s, b = [(fileset_out x0, s)] /\
                     scont L0 rules0 src0 f x0 = Some (inl l) /\
                     (forall c, lookup (fileset_out x0) out = Some (c, s) -> c = CList l)
@@ -1003,14 +1084,14 @@ Qed.
 Lemma rdigest_of_kind r r0 :
   rdigest_of r = rdigest_of r0 ->
   r_name r = r_name r0 /\
-  (forall f s i, r_kind r = KFileSet f s i <-> r_kind r0 = KFileSet f s i) /\
+  (forall f s g i, r_kind r = KFileSet f s g i <-> r_kind r0 = KFileSet f s g i) /\
   ((exists ds, r_kind r = KBundle ds) <-> (exists ds, r_kind r0 = KBundle ds)).
 Proof.
   unfold rdigest_of. destruct (r_kind r), (r_kind r0); try discriminate.
-  - intros [= -> -> -> ->]. split; [reflexivity|]. split; [tauto|].
+  - intros [= -> -> -> -> ->]. split; [reflexivity|]. split; [tauto|].
     split; intros [ds H]; discriminate.
   - intros [= ->]. split; [reflexivity|]. split.
-    + intros f s i. split; discriminate.
+    + intros f s g i. split; discriminate.
     + split; eauto.
 Qed.
 
@@ -1026,9 +1107,9 @@ Section Run.
     exists F, forall nm d, In (nm, d) memo -> sdig L rules src F nm = Some d.
 
   Definition outs_ok (memo : list (name * digest)) (out : list (name * (content * N))) : Prop :=
-    exists F, forall nm d n r files sels incs,
+    exists F, forall nm d n r files sels igns incs,
       In (nm, d) memo -> find_node nm L = Some n -> ntype n = TRule ->
-      find_rule nm rules = Some r -> r_kind r = KFileSet files sels incs ->
+      find_rule nm rules = Some r -> r_kind r = KFileSet files sels igns incs ->
       exists l s, scont L rules src F nm = Some (inl l) /\
                   lookup (fileset_out nm) out = Some (CList l, s).
 
@@ -1062,11 +1143,11 @@ Section Run.
   Qed.
 
   (** what a successful [fileSet.build] writes is the configuration's content *)
-  Lemma exec_content_spec memo out nm r files sels incs fl l :
+  Lemma exec_content_spec memo out nm r files sels igns incs fl l :
     outs_ok memo out ->
     (forall i, In i incs -> exists di, In (i, di) memo) ->
-    find_rule nm rules = Some r -> r_kind r = KFileSet files sels incs ->
-    expand_files (map fst src) files sels = Some fl ->
+    find_rule nm rules = Some r -> r_kind r = KFileSet files sels igns incs ->
+    expand_files (map fst src) files sels igns = Some fl ->
     fileset_content L rules src out fl incs = inl l ->
     exists F1, scont L rules src F1 nm = Some (inl l).
   Proof.
@@ -1074,20 +1155,20 @@ Section Run.
     rewrite <- Hc. apply fileset_content_ext; [eapply wg_noout; eauto|].
     intros i Hi. unfold content_at.
     destruct (fileset_content_ok _ _ _ _ _ _ _ Hc i Hi)
-      as (n & ri & fs' & ss' & is' & li & s & Hn & Hty & Hri & Hki & Hl).
+      as (n & ri & fs' & ss' & gs' & is' & li & s & Hn & Hty & Hri & Hki & Hl).
     destruct (Hmemo i Hi) as [di Hdi].
-    destruct (HF i di n ri fs' ss' is' Hdi Hn Hty Hri Hki) as (l' & s' & Hsc & Hl').
+    destruct (HF i di n ri fs' ss' gs' is' Hdi Hn Hty Hri Hki) as (l' & s' & Hsc & Hl').
     rewrite Hl in Hl'. injection Hl' as <- <-.
     rewrite Hl, lookup_spec_outs. apply mem_In in Hi. now rewrite Hi, Hsc.
   Qed.
 
   Lemma outs_ok_add_other memo out x d :
     outs_ok memo out ->
-    (forall n r files sels incs, find_node x L = Some n -> ntype n = TRule ->
-        find_rule x rules = Some r -> r_kind r = KFileSet files sels incs -> False) ->
+    (forall n r files sels igns incs, find_node x L = Some n -> ntype n = TRule ->
+        find_rule x rules = Some r -> r_kind r = KFileSet files sels igns incs -> False) ->
     outs_ok ((x, d) :: memo) out.
   Proof.
-    intros [F HF] Hno. exists F. intros nm d' n r files sels incs [[= <- <-]|Hin] Hn Hty Hr Hk.
+    intros [F HF] Hno. exists F. intros nm d' n r files sels igns incs [[= <- <-]|Hin] Hn Hty Hr Hk.
     - exfalso. eauto.
     - eauto.
   Qed.
@@ -1098,10 +1179,10 @@ Section Run.
     outs_ok ((x, d) :: memo) out.
   Proof.
     intros [F HF] Hg Hl. exists (Nat.max F g).
-    intros nm d' n r files sels incs [[= <- <-]|Hin] Hn Hty Hr Hk.
+    intros nm d' n r files sels igns incs [[= <- <-]|Hin] Hn Hty Hr Hk.
     - exists l, s. split; [|assumption].
       apply (scont_mono L rules src HG g (Nat.max F g)); [lia|assumption].
-    - destruct (HF nm d' n r files sels incs Hin Hn Hty Hr Hk) as (l' & s' & A & B).
+    - destruct (HF nm d' n r files sels igns incs Hin Hn Hty Hr Hk) as (l' & s' & A & B).
       exists l', s'. split; [|assumption].
       apply (scont_mono L rules src HG F (Nat.max F g)); [lia|assumption].
   Qed.
@@ -1113,18 +1194,31 @@ Section Run.
     outs_ok memo (set_assoc (fileset_out x) (Some (CList l, clock)) out).
   Proof.
     intros [F HF] Hg. exists (Nat.max F g).
-    intros nm d' n r files sels incs Hin Hn Hty Hr Hk.
+    intros nm d' n r files sels igns incs Hin Hn Hty Hr Hk.
     destruct (String.eqb_spec x nm) as [->|Hne].
     - exists l, clock. split; [|apply lookup_set_same].
       apply (scont_mono L rules src HG g (Nat.max F g)); [lia|assumption].
-    - destruct (HF nm d' n r files sels incs Hin Hn Hty Hr Hk) as (l' & s' & A & B).
+    - destruct (HF nm d' n r files sels igns incs Hin Hn Hty Hr Hk) as (l' & s' & A & B).
       exists l', s'. split; [apply (scont_mono L rules src HG F (Nat.max F g)); [lia|assumption]|].
       rewrite lookup_set_other; [assumption|]. intros E. apply fileset_out_inj in E. congruence.
   Qed.
 
+  Variable always : bool.
+  Variable now : N.
+
+  (** a cache entry that is present, not expired, with outputs unchanged *)
   Definition valid_cached (out : list (name * (content * N))) (cache : list (digest * built))
-             (d : digest) : Prop :=
-    exists b, cache_get d cache = Some b /\ same_built out b = true.
+             (times : list (digest * N)) (d : digest) : Prop :=
+    exists b, cache_get d cache = Some b /\ live now times d = true /\ same_built out b = true.
+
+  Lemma hitb_valid st d :
+    hitb now st d = true <-> valid_cached (b_out st) (b_cache st) (b_times st) d.
+  Proof.
+    unfold hitb, valid_cached. destruct (cache_get d (b_cache st)) as [b|].
+    - rewrite andb_true_iff. split; [intros [A B]; eauto|].
+      intros [b' [[= <-] H]]. exact H.
+    - split; [discriminate|]. intros [b' [H _]]. discriminate.
+  Qed.
 
   Lemma same_built_single out o s :
     same_built out [(o, s)] = true <-> exists c, lookup o out = Some (c, s).
@@ -1137,8 +1231,8 @@ Section Run.
     - intros [c' H]. discriminate.
   Qed.
 
-  Lemma node_outs_fs x r files sels incs :
-    find_rule (nname x) rules = Some r -> r_kind r = KFileSet files sels incs ->
+  Lemma node_outs_fs x r files sels igns incs :
+    find_rule (nname x) rules = Some r -> r_kind r = KFileSet files sels igns incs ->
     node_outs rules x = [fileset_out (nname x)].
   Proof. intros Hr Hk. unfold node_outs. now rewrite Hr, Hk. Qed.
 
@@ -1146,23 +1240,43 @@ Section Run.
     find_rule (nname x) rules = Some r -> r_kind r = KBundle ds -> node_outs rules x = [].
   Proof. intros Hr Hk. unfold node_outs. now rewrite Hr, Hk. Qed.
 
+  (** in scope, [fileNodes] neither fails nor looks at out/ *)
+  Lemma rule_extras_ext nm r out out' :
+    find_rule nm rules = Some r ->
+    rule_extras L (map fst src) out r = rule_extras L (map fst src) out' r.
+  Proof.
+    intros Hr. unfold rule_extras. destruct (r_kind r) as [files sels igns incs|] eqn:Hk; [|reflexivity].
+    destruct (expand_files (map fst src) files sels igns) as [fl|] eqn:Hex; [|reflexivity].
+    apply extras_of_ext. eapply wg_noout; eauto.
+  Qed.
+
+  Lemma rule_extras_total nm r out :
+    find_rule nm rules = Some r -> exists ex, rule_extras L (map fst src) out r = inl ex.
+  Proof.
+    intros Hr. unfold rule_extras. destruct (r_kind r) as [files sels igns incs|] eqn:Hk; [|eauto].
+    destruct (expand_files (map fst src) files sels igns) as [fl|] eqn:Hex; [|eauto].
+    apply extras_of_total. eapply wg_noout; eauto.
+  Qed.
+
   (** The digest [visit] computes for a rule node is the configuration's. *)
-  Lemma visit_digest x r memo dd F :
+  Lemma visit_digest x r memo dd F out ex :
     find_node (nname x) L = Some x -> ntype x = TRule -> find_rule (nname x) rules = Some r ->
     (forall nm d, In (nm, d) memo -> sdig L rules src F nm = Some d) ->
     dep_digests memo (ndeps x) = Some dd ->
+    rule_extras L (map fst src) out r = inl ex ->
     sdig L rules src (S F) (nname x)
-    = Some (DRuleD (rdigest_of r) (canon_deps dd) (node_outs rules x)).
+    = Some (DRuleD (rdigest_of r) (canon_deps dd) (node_outs rules x) ex).
   Proof.
-    intros Hx Hty Hr HF Hdd. simpl. rewrite Hx, Hty, Hr.
-    now rewrite (memo_collect memo F (ndeps x) dd HF Hdd).
+    intros Hx Hty Hr HF Hdd Hex. simpl. rewrite Hx, Hty, Hr.
+    rewrite (memo_collect memo F (ndeps x) dd HF Hdd).
+    now rewrite (rule_extras_ext _ r [] out Hr), Hex.
   Qed.
 
   (** A cache hit hands over the configuration's content (the key lemma). *)
-  Lemma hit_content st x r files sels incs d F b :
+  Lemma hit_content st x r files sels igns incs d F b :
     cache_inv (b_out st) (b_cache st) ->
     find_node (nname x) L = Some x -> ntype x = TRule -> find_rule (nname x) rules = Some r ->
-    r_kind r = KFileSet files sels incs ->
+    r_kind r = KFileSet files sels igns incs ->
     sdig L rules src F (nname x) = Some d ->
     cache_get d (b_cache st) = Some b -> same_built (b_out st) b = true ->
     exists g l s, scont L rules src g (nname x) = Some (inl l) /\
@@ -1171,68 +1285,72 @@ Section Run.
     intros Hinv Hx Hty Hr Hk Hd Hget Hsame.
     destruct (Hinv d b Hget) as (L0 & rules0 & src0 & x0 & n0 & r0 & f0 & HG0 & Hn0 & Hty0 & Hr0 & Hd0 & Hb).
     (* same rule on both sides *)
-    destruct (sdig_of_rule _ _ _ _ _ _ _ _ Hx Hty Hr Hd) as (f1 & dd & -> & _ & Ed).
-    destruct (sdig_of_rule _ _ _ _ _ _ _ _ Hn0 Hty0 Hr0 Hd0) as (f1' & dd0 & -> & _ & Ed0).
+    destruct (sdig_of_rule _ _ _ _ _ _ _ _ Hx Hty Hr Hd) as (f1 & dd & ex & -> & _ & _ & Ed).
+    destruct (sdig_of_rule _ _ _ _ _ _ _ _ Hn0 Hty0 Hr0 Hd0) as (f1' & dd0 & ex0 & -> & _ & _ & Ed0).
     assert (Erd : rdigest_of r = rdigest_of r0) by congruence.
     destruct (rdigest_of_kind _ _ Erd) as (Enm & Hfs & _).
     rewrite (find_rule_name _ _ _ Hr), (find_rule_name _ _ _ Hr0) in Enm.
-    pose proof (proj1 (Hfs _ _ _) Hk) as Hk0. rewrite Hk0 in Hb.
+    pose proof (proj1 (Hfs _ _ _ _) Hk) as Hk0. rewrite Hk0 in Hb.
     destruct Hb as (l & s & -> & Hsc & Hc).
     apply same_built_single in Hsame. destruct Hsame as [c Hl].
     pose proof (Hc c Hl) as ->.
-    destruct (key_lemma L rules src L0 rules0 src0 HG HG0 _ _ _ Hd _ _ Hd0 _ _ _ _ _ Hx Hty Hr Hk _ _ Hsc)
+    destruct (key_lemma L rules src L0 rules0 src0 HG HG0 _ _ _ Hd _ _ Hd0 _ _ _ _ _ _ Hx Hty Hr Hk _ _ Hsc)
       as [g Hg].
     exists g, l, s. split; [assumption|]. now rewrite Enm.
   Qed.
 
+  Let vis := visit L rules src always now.
+
   Theorem visit_inv x st :
     binv st -> find_node (nname x) L = Some x ->
-    match visit L rules src x st with
+    match vis x st with
     | inl st' => binv st'
     | inr (st', _) => cache_inv (b_out st') (b_cache st') /\
                       fresh (b_out st') (b_cache st') (b_clock st')
     end.
   Proof.
-    intros [Hm Ho Hc Hf] Hx. unfold visit.
+    intros [Hm Ho Hc Hf] Hx. unfold vis, visit.
     destruct (dep_digests (b_memo st) (ndeps x)) as [dd|] eqn:Hdd; [|split; assumption].
     destruct (ntype x) eqn:Hty.
     - (* a source file *)
       destruct (lookup (nname x) src) as [s|] eqn:Hs; [|split; assumption].
       constructor; simpl; auto.
       + apply memo_ok_add; [assumption|]. intros F _. simpl. now rewrite Hx, Hty, Hs.
-      + apply outs_ok_add_other; [assumption|]. intros n r fs ss is' Hn Ht. congruence.
+      + apply outs_ok_add_other; [assumption|]. intros n r fs ss gs is' Hn Ht. congruence.
     - (* a rule *)
       destruct (find_rule (nname x) rules) as [r|] eqn:Hr; [|split; assumption].
-      set (d := DRuleD (rdigest_of r) (canon_deps dd) (node_outs rules x)).
+      destruct (rule_extras L (map fst src) (b_out st) r) as [ex|e] eqn:Hex; [|split; assumption].
+      cbv zeta.
+      set (d := DRuleD (rdigest_of r) (canon_deps dd) (node_outs rules x) ex).
+      assert (Hdig : forall F, (forall nm d', In (nm, d') (b_memo st) -> sdig L rules src F nm = Some d') ->
+                               sdig L rules src (S F) (nname x) = Some d).
+      { intros F HF. exact (visit_digest x r (b_memo st) dd F _ ex Hx Hty Hr HF Hdd Hex). }
       assert (Hmemo' : memo_ok ((nname x, d) :: b_memo st)).
-      { apply memo_ok_add; [assumption|]. intros F HF.
-        exact (visit_digest x r (b_memo st) dd F Hx Hty Hr HF Hdd). }
-      destruct (match cache_get d (b_cache st) with
-                | Some b => same_built (b_out st) b
-                | None => false
-                end) eqn:Hhit.
+      { apply memo_ok_add; [assumption|]. exact Hdig. }
+      destruct (hitb now st d && negb always) eqn:Hhit.
       + (* cache hit *)
+        apply andb_true_iff in Hhit. destruct Hhit as [Hhit _]. unfold hitb in Hhit.
         destruct (cache_get d (b_cache st)) as [b|] eqn:Hget; [|discriminate].
+        apply andb_true_iff in Hhit. destruct Hhit as [_ Hsame].
         constructor; simpl; auto.
-        destruct (r_kind r) as [files sels incs|ds] eqn:Hk.
+        destruct (r_kind r) as [files sels igns incs|ds] eqn:Hk.
         * destruct Hm as [F HF].
-          pose proof (visit_digest x r _ dd F Hx Hty Hr HF Hdd) as Hd. fold d in Hd.
-          destruct (hit_content st x r files sels incs d (S F) b Hc Hx Hty Hr Hk Hd Hget Hhit)
+          destruct (hit_content st x r files sels igns incs d (S F) b Hc Hx Hty Hr Hk (Hdig F HF) Hget Hsame)
             as (g & l & s & Hg & Hl).
           eapply outs_ok_add_fs; eauto.
-        * apply outs_ok_add_other; [assumption|]. intros n r' fs ss is' Hn Ht Hr' Hk'. congruence.
-      + (* no valid entry: remove, log, execute, store *)
+        * apply outs_ok_add_other; [assumption|]. intros n r' fs ss gs is' Hn Ht Hr' Hk'. congruence.
+      + (* no valid entry (or AlwaysRebuild): remove, log, execute, store *)
         clear Hhit.
         assert (Hc1 : cache_inv (b_out st) (cache_remove d (b_cache st))) by now apply cache_inv_remove.
         assert (Hf1 : fresh (b_out st) (cache_remove d (b_cache st)) (b_clock st)) by now apply fresh_remove.
         pose proof (find_rule_name _ _ _ Hr) as Hrn.
-        unfold exec_rule, log. cbn [b_out b_cache b_clock b_memo b_exec].
-        destruct (r_kind r) as [files sels incs|ds] eqn:Hk.
+        unfold exec_rule, log. cbn [b_out b_cache b_clock b_memo b_exec b_times].
+        destruct (r_kind r) as [files sels igns incs|ds] eqn:Hk.
         * (* a file set *)
-          destruct (expand_files (map fst src) files sels) as [fl|] eqn:Hex; [|split; assumption].
+          destruct (expand_files (map fst src) files sels igns) as [fl|] eqn:Hexp; [|split; assumption].
           destruct (fileset_content L rules src (b_out st) fl incs) as [l|e] eqn:Hcont;
             [|split; assumption].
-          rewrite Hrn, (node_outs_fs x r files sels incs Hr Hk).
+          rewrite Hrn, (node_outs_fs x r files sels igns incs Hr Hk).
           assert (Hnb : new_built (set_assoc (fileset_out (nname x)) (Some (CList l, b_clock st)) (b_out st))
                                   [fileset_out (nname x)]
                         = inl [(fileset_out (nname x), b_clock st)]).
@@ -1248,7 +1366,7 @@ Section Run.
             destruct (collect_some_in _ _ _ i Hdd) as [di Hdi];
               [rewrite Hnd; apply in_app_iff; now right|].
             exists di. now apply lookup_In_pair. }
-          destruct (exec_content_spec _ _ (nname x) r files sels incs fl l Ho Hincs Hr Hk Hex Hcont)
+          destruct (exec_content_spec _ _ (nname x) r files sels igns incs fl l Ho Hincs Hr Hk Hexp Hcont)
             as [g Hg].
           constructor; simpl.
           -- exact Hmemo'.
@@ -1259,8 +1377,7 @@ Section Run.
                 exists L, rules, src, (nname x), x, r, (Nat.max (S F) g).
                 split; [exact HG|]. split; [exact Hx|]. split; [exact Hty|]. split; [exact Hr|].
                 split.
-                { apply (sdig_mono L rules src (S F)); [lia|].
-                  exact (visit_digest x r _ dd F Hx Hty Hr HF Hdd). }
+                { apply (sdig_mono L rules src (S F)); [lia|]. exact (Hdig F HF). }
                 rewrite Hk. exists l, (b_clock st). split; [reflexivity|]. split.
                 { apply (scont_mono L rules src HG g); [lia|assumption]. }
                 intros c Hl. rewrite lookup_set_same in Hl. now injection Hl as <-.
@@ -1276,12 +1393,12 @@ Section Run.
           rewrite (node_outs_bundle x r ds Hr Hk). cbn [new_built fold_right].
           constructor; simpl.
           -- exact Hmemo'.
-          -- apply outs_ok_add_other; [assumption|]. intros n r' fs ss is' Hn Ht Hr' Hk'. congruence.
+          -- apply outs_ok_add_other; [assumption|]. intros n r' fs ss gs is' Hn Ht Hr' Hk'. congruence.
           -- apply cache_inv_put; [assumption|].
              destruct Hm as [F HF].
              exists L, rules, src, (nname x), x, r, (S F).
              split; [exact HG|]. split; [exact Hx|]. split; [exact Hty|]. split; [exact Hr|].
-             split; [exact (visit_digest x r _ dd F Hx Hty Hr HF Hdd)|].
+             split; [exact (Hdig F HF)|].
              rewrite Hk. reflexivity.
           -- apply fresh_put with (clock0 := b_clock st) (out0 := b_out st);
                [exact Hf1|lia| |intros o s []].
@@ -1290,7 +1407,7 @@ Section Run.
       constructor; simpl; auto.
       + apply memo_ok_add; [assumption|]. intros F HF. simpl. rewrite Hx, Hty.
         now rewrite (memo_collect (b_memo st) F (ndeps x) dd HF Hdd).
-      + apply outs_ok_add_other; [assumption|]. intros n r fs ss is' Hn Ht. congruence.
+      + apply outs_ok_add_other; [assumption|]. intros n r fs ss gs is' Hn Ht. congruence.
   Qed.
 End Run.
 
@@ -1299,7 +1416,9 @@ Section RunAll.
   Variables (L : list node) (rules : list rule) (src : list (name * stat)).
   Hypothesis HG : wfG L rules src.
 
-  Let vis := visit L rules src.
+  Variables (always : bool) (now : N).
+
+  Let vis := visit L rules src always now.
 
   Lemma run_inv new : forall b st,
     binv L rules src st ->
@@ -1311,7 +1430,7 @@ Section RunAll.
     end.
   Proof.
     induction new as [|x new IH]; intros b st Hinv Hnew; simpl; [assumption|].
-    pose proof (visit_inv L rules src HG x st Hinv (Hnew x (or_introl eq_refl))) as Hv.
+    pose proof (visit_inv L rules src HG always now x st Hinv (Hnew x (or_introl eq_refl))) as Hv.
     fold vis in Hv. destruct (vis x st) as [st'|[st' e]]; [|assumption].
     apply IH; [assumption|]. intros y Hy. apply Hnew. now right.
   Qed.
@@ -1392,8 +1511,7 @@ Proof.
     apply Herr in Hp. contradiction. }
   assert (Hreg : forall n, In n (file_nodes decls) -> find_node (nname n) (r_nodes st) = Some n).
   { intros n Hn. apply find_node_NoDup; [assumption|]. apply Hin. exists "". now rewrite Hfn. }
-  apply andb_true_iff in Hscope. destruct Hscope as [Hs1 Hs2].
-  rewrite forallb_forall in Hs1, Hs2.
+  pose proof Hscope as Hs1. unfold scopeb in Hs1. rewrite forallb_forall in Hs1.
   constructor.
   - eapply topo_wf; eauto.
   - (* rule nodes come from the rules *)
@@ -1408,8 +1526,8 @@ Proof.
     unfold decls in Hd. apply in_map_iff in Hd. destruct Hd as [r [Hdr Hr']].
     (* the rule find_rule returns declares the same node *)
     assert (Enm : nm = r_name r).
-    { unfold decl_of_rule in Hdr. destruct (r_kind r).
-      - destruct (expand_files names files sels); [|discriminate]. now injection Hdr as <- _ _.
+    { unfold decl_of_rule in Hdr. destruct (r_kind r) as [files sels igns incs|ds].
+      - destruct (expand_files names files sels igns); [|discriminate]. now injection Hdr as <- _ _.
       - now injection Hdr as <- _ _. }
     subst nm. destruct (find_rule_first _ _ Hr') as [r' [Hfr Enm]].
     exists r'. simpl. split; [exact Hfr|].
@@ -1425,17 +1543,15 @@ Proof.
         unfold decls. apply in_map_iff. eauto. }
       pose proof (Hreg _ Hn') as H1. pose proof (Hreg _ Hn0) as H2. simpl in H1, H2.
       rewrite Enm in H1. rewrite H1 in H2. now injection H2. }
-    unfold decl_of_rule in Hnode, Hd'. destruct (r_kind r') as [files sels incs|ds].
-    + destruct (expand_files names files sels) as [fl|] eqn:Hex.
+    unfold decl_of_rule in Hnode, Hd'. destruct (r_kind r') as [files sels igns incs|ds].
+    + destruct (expand_files names files sels igns) as [fl|] eqn:Hex.
       * exists fl. split; [exact Hex|]. symmetry. eapply Hnode. reflexivity.
       * exfalso. eapply file_errs_nil_no_bad; eauto.
     + symmetry. eapply Hnode. reflexivity.
-  - intros nm r files sels incs fl Hfr Hk Hex f n Hf Hn Hty.
+  - intros nm r files sels igns incs fl Hfr Hk Hex f n Hf Hn Hty.
     specialize (Hs1 r (find_rule_In _ _ _ Hfr)). rewrite Hk in Hs1.
     unfold names in *. rewrite Hex in Hs1. unfold no_out_filesb in Hs1. rewrite forallb_forall in Hs1.
     specialize (Hs1 f Hf). rewrite Hn, Hty in Hs1. discriminate.
-  - intros n HnL Hty. specialize (Hs2 n HnL).
-    destruct (ntype n); [congruence| |]; destruct (lookup (nname n) (w_src w)); congruence.
   - intros n HnL Hty.
     destruct (topo_In _ _ _ Htopo n HnL) as [Hf|(_ & Hk & _)].
     + exfalso. apply find_node_Some in Hf. destruct Hf as [Hn _].
@@ -1448,71 +1564,89 @@ Qed.
 Definition winv (w : world) : Prop :=
   cache_inv (w_out w) (w_cache w) /\ fresh (w_out w) (w_cache w) (w_clock w).
 
-(** every build of the history stays inside the model's scope *)
+(** every build of the history stays inside the theorems' scope *)
 Definition build_in_scope (ts : list name) (w : world) : Prop :=
   match load_world w ts with
   | LOk L => scopeb L (w_rules w) (w_src w) = true
   | _ => True
   end.
 
+Definition op_in_scope (o : op) (w : world) : Prop :=
+  match o with
+  | OBuild ts | OBuildAlways ts => build_in_scope ts w
+  | _ => True
+  end.
+
 Fixpoint hist_in_scope (h : list op) (w : world) : Prop :=
   match h with
   | [] => True
-  | o :: r => match o with OBuild ts => build_in_scope ts w | _ => True end /\
-              hist_in_scope r (step w o)
+  | o :: r => op_in_scope o w /\ hist_in_scope r (step w o)
   end.
 
-Definition st0_of (w : world) : bstate := mkB (w_out w) (w_cache w) (w_clock w) [] [].
+Definition st0_of (w : world) : bstate :=
+  mkB (w_out w) (w_cache w) (w_clock w) [] [] (w_times w).
 
 Lemma binv_st0 L rules src w : winv w -> binv L rules src (st0_of w).
 Proof.
   intros [Hc Hf]. constructor; simpl; auto.
   - exists 0. intros nm d [].
-  - exists 0. intros nm d n r fs ss is' [].
+  - exists 0. intros nm d n r fs ss gs is' [].
 Qed.
 
 (** [build] as a fold of [visit] over the visiting order *)
-Lemma build_unfold ts w L :
+Lemma build_unfold always ts w L :
   load_world w ts = LOk L -> wf_loaded L ->
   exists new,
     post_targets L ts [] = Some new /\
-    build ts w =
-    match LoadProofs.run bstate (bstate * failure) (visit L (w_rules w) (w_src w)) new ([], st0_of w) with
+    build_with always ts w =
+    match LoadProofs.run bstate (bstate * failure)
+            (visit L (w_rules w) (w_src w) always (w_now w)) new ([], st0_of w) with
     | inl (_, st) => (with_state w st, b_exec st, BOk)
     | inr (st, e) => (with_state w st, b_exec st, BFail e)
     end.
 Proof.
   intros Hl Hwf. destruct (post_targets_total L Hwf ts []) as [new Hn].
-  exists new. split; [assumption|]. unfold build. rewrite Hl.
+  exists new. split; [assumption|]. unfold build_with. rewrite Hl.
   fold (st0_of w).
   rewrite (dfs_targets_post L bstate (bstate * failure) _ _ ts [] (st0_of w) new Hn).
-  destruct (LoadProofs.run bstate (bstate * failure) (visit L (w_rules w) (w_src w)) new ([], st0_of w))
+  destruct (LoadProofs.run bstate (bstate * failure) (visit L (w_rules w) (w_src w) always (w_now w))
+              new ([], st0_of w))
     as [[b st]|[st e]]; reflexivity.
 Qed.
 
-Theorem build_inv ts w : winv w -> build_in_scope ts w -> winv (fst (fst (build ts w))).
+Theorem build_inv always ts w :
+  winv w -> build_in_scope ts w -> winv (fst (fst (build_with always ts w))).
 Proof.
   intros Hw Hs. unfold build_in_scope in Hs.
   destruct (load_world w ts) as [|es|L] eqn:Hl.
-  - unfold build. now rewrite Hl.
-  - unfold build. now rewrite Hl.
+  - unfold build_with. now rewrite Hl.
+  - unfold build_with. now rewrite Hl.
   - pose proof (load_world_wfG w ts L Hl Hs) as HG.
-    destruct (build_unfold ts w L Hl (wg_wf _ _ _ HG)) as [new [Hn ->]].
+    destruct (build_unfold always ts w L Hl (wg_wf _ _ _ HG)) as [new [Hn ->]].
     destruct (post_targets_spec L (wg_wf _ _ _ HG) ts [] new Hn) as [Hok _].
-    pose proof (run_inv L (w_rules w) (w_src w) HG new [] (st0_of w) (binv_st0 _ _ _ w Hw)) as Hr.
+    pose proof (run_inv L (w_rules w) (w_src w) HG always (w_now w) new [] (st0_of w)
+                  (binv_st0 _ _ _ w Hw)) as Hr.
     assert (Hnodes : forall x, In x new -> find_node (nname x) L = Some x).
     { intros x Hx. destruct (po_nodes _ _ _ _ Hok x Hx) as [H _]. exact H. }
     specialize (Hr Hnodes).
-    destruct (LoadProofs.run bstate (bstate * failure) (visit L (w_rules w) (w_src w)) new ([], st0_of w))
+    destruct (LoadProofs.run bstate (bstate * failure)
+                (visit L (w_rules w) (w_src w) always (w_now w)) new ([], st0_of w))
       as [[b st]|[st e]]; simpl.
     + destruct Hr as [_ _ Hc Hf]. split; assumption.
     + exact Hr.
 Qed.
 
-Theorem step_inv w o :
-  winv w -> match o with OBuild ts => build_in_scope ts w | _ => True end -> winv (step w o).
+Lemma fresh_mono out cache clock clock' :
+  fresh out cache clock -> (clock <= clock')%N -> fresh out cache clock'.
 Proof.
-  intros [Hc Hf] Hs. destruct o as [nm s|rs|o c|ts]; simpl.
+  intros (F1 & F2 & F3) Hle. split; [|split; [|exact F3]].
+  - intros o c s Hl. specialize (F1 _ _ _ Hl). lia.
+  - intros d b o s Hg Hin. specialize (F2 _ _ _ _ Hg Hin). lia.
+Qed.
+
+Theorem step_inv w o : winv w -> op_in_scope o w -> winv (step w o).
+Proof.
+  intros [Hc Hf] Hs. destruct o as [nm s|rs|o c|o|dt|ts|ts]; simpl.
   - split; assumption.
   - split; assumption.
   - destruct c as [c|]; split.
@@ -1520,7 +1654,14 @@ Proof.
     + now apply fresh_write.
     + now apply cache_inv_delete.
     + now apply fresh_delete.
-  - apply build_inv; [split; assumption|assumption].
+  - destruct (lookup o (w_out w)) as [[c s]|]; split.
+    + now apply cache_inv_write.
+    + now apply fresh_write.
+    + assumption.
+    + apply (fresh_mono _ _ (w_clock w)); [assumption|apply N.le_succ_diag_r].
+  - split; assumption.
+  - apply (build_inv false); [split; assumption|assumption].
+  - apply (build_inv true); [split; assumption|assumption].
 Qed.
 
 Theorem run_hist_inv h : forall w, winv w -> hist_in_scope h w -> winv (run h w).
@@ -1550,12 +1691,14 @@ Section Succeeds.
   Variables (L : list node) (rules : list rule) (src : list (name * stat)).
   Hypothesis HG : wfG L rules src.
 
-  Let vis := visit L rules src.
+  Variables (always : bool) (now : N).
+
+  Let vis := visit L rules src always now.
 
   (** every file-set rule among these nodes has a computable content *)
   Definition spec_ok (xs : list node) : Prop :=
-    forall x r fs ss is', In x xs -> ntype x = TRule -> find_rule (nname x) rules = Some r ->
-      r_kind r = KFileSet fs ss is' -> exists g l, scont L rules src g (nname x) = Some (inl l).
+    forall x r fs ss gs is', In x xs -> ntype x = TRule -> find_rule (nname x) rules = Some r ->
+      r_kind r = KFileSet fs ss gs is' -> exists g l, scont L rules src g (nname x) = Some (inl l).
 
   Lemma visit_memo x st st' :
     vis x st = inl st' -> exists d, b_memo st' = (nname x, d) :: b_memo st.
@@ -1564,8 +1707,9 @@ Section Succeeds.
     destruct (dep_digests (b_memo st) (ndeps x)) as [dd|]; [|discriminate].
     destruct (ntype x).
     - destruct (lookup (nname x) src); [|discriminate]. intros [= <-]. simpl. eauto.
-    - destruct (find_rule (nname x) rules) as [r|]; [|discriminate]. cbv zeta.
-      destruct (match cache_get _ (b_cache st) with Some b => same_built (b_out st) b | None => false end).
+    - destruct (find_rule (nname x) rules) as [r|]; [|discriminate].
+      destruct (rule_extras L (map fst src) (b_out st) r) as [ex|]; [|discriminate]. cbv zeta.
+      destruct (hitb now st _ && negb always).
       + intros [= <-]. simpl. eauto.
       + destruct (exec_rule L rules src r x _) as [[out' clock']|e]; [|discriminate].
         destruct (new_built out' (node_outs rules x)); [|discriminate].
@@ -1587,30 +1731,30 @@ Section Succeeds.
     rewrite dep_digests_collect, Hdd.
     destruct (ntype x) eqn:Hty.
     - destruct (wg_src _ _ _ HG x Hin Hty) as [s ->]. eauto.
-    - destruct (wg_rule _ _ _ HG x Hin Hty) as (r & Hr & Hdeps'). rewrite Hr. cbv zeta.
-      destruct (match cache_get _ (b_cache st) with Some b => same_built (b_out st) b | None => false end);
-        [eauto|].
-      unfold exec_rule, log. cbn [b_out b_cache b_clock b_memo b_exec].
+    - destruct (wg_rule _ _ _ HG x Hin Hty) as (r & Hr & Hdeps'). rewrite Hr.
+      destruct (rule_extras_total L rules src HG _ r (b_out st) Hr) as [ex ->]. cbv zeta.
+      destruct (hitb now st _ && negb always); [eauto|].
+      unfold exec_rule, log. cbn [b_out b_cache b_clock b_memo b_exec b_times].
       pose proof (find_rule_name _ _ _ Hr) as Hrn.
-      destruct (r_kind r) as [files sels incs|ds] eqn:Hk.
+      destruct (r_kind r) as [files sels igns incs|ds] eqn:Hk.
       + destruct Hdeps' as (fl & Hex & Hnd). rewrite Hex.
-        destruct (Hspec x r files sels incs (or_introl eq_refl) Hty Hr Hk) as (g & l & Hg).
+        destruct (Hspec x r files sels igns incs (or_introl eq_refl) Hty Hr Hk) as (g & l & Hg).
         assert (Hcont : fileset_content L rules src (b_out st) fl incs = inl l).
         { destruct g as [|g']; [discriminate|]. simpl in Hg. rewrite Hr, Hk, Hex in Hg.
           injection Hg as Hg. rewrite <- Hg.
           apply fileset_content_ext; [eapply wg_noout; eauto|].
           intros i Hi. unfold content_at.
           destruct (fileset_content_ok _ _ _ _ _ _ _ Hg i Hi)
-            as (n & ri & fs' & ss' & is' & li & s & Hn & Hti & Hri & Hki & Hl).
+            as (n & ri & fs' & ss' & gs' & is' & li & s & Hn & Hti & Hri & Hki & Hl).
           rewrite Hl. rewrite lookup_spec_outs in Hl.
           destruct (mem i incs); [|discriminate].
           destruct (scont L rules src g' i) as [[li'|]|] eqn:Hsi; try discriminate.
           injection Hl as -> _.
           destruct (Hdeps i) as [di Hdi]; [rewrite Hnd; apply in_app_iff; now right|].
           destruct Ho as [F HF].
-          destruct (HF i di n ri fs' ss' is' Hdi Hn Hti Hri Hki) as (l2 & s2 & Hs2 & Hl2).
+          destruct (HF i di n ri fs' ss' gs' is' Hdi Hn Hti Hri Hki) as (l2 & s2 & Hs2 & Hl2).
           rewrite Hl2. now rewrite (scont_unique L rules src HG _ _ _ _ _ Hs2 Hsi). }
-        rewrite Hcont, Hrn, (node_outs_fs rules x r files sels incs Hr Hk).
+        rewrite Hcont, Hrn, (node_outs_fs rules x r files sels igns incs Hr Hk).
         unfold new_built. cbn [fold_right]. rewrite lookup_set_same. eauto.
       + rewrite (node_outs_bundle rules x r ds Hr Hk). cbn [new_built fold_right]. eauto.
     - eauto.
@@ -1635,9 +1779,9 @@ Section Succeeds.
       { intros k Hk. destruct (po_deps _ _ _ _ Hok done x rest eq_refl k Hk) as [[]|Hkd].
         apply in_map_iff in Hkd. destruct Hkd as [y [<- Hy]]. auto. }
       destruct (visit_succeeds x st Hinv Hx Hdeps) as [st' Hv].
-      { intros y r fs ss is' [<-|[]]. apply Hspec. now left. }
+      { intros y r fs ss gs is' [<-|[]]. apply Hspec. now left. }
       rewrite Hv. destruct (visit_memo _ _ _ Hv) as [d Hmemo].
-      pose proof (visit_inv L rules src HG x st Hinv Hx) as Hinv'. fold vis in Hinv'.
+      pose proof (visit_inv L rules src HG always now x st Hinv Hx) as Hinv'. fold vis in Hinv'.
       rewrite Hv in Hinv'.
       destruct (IH (done ++ [x])%list (nname x :: b) st') as (b' & st2 & Hrun & Hinv2 & Hall).
       + now rewrite <- app_assoc.
@@ -1645,7 +1789,7 @@ Section Succeeds.
       + intros y Hy. apply in_app_iff in Hy. rewrite Hmemo. destruct Hy as [Hy|[<-|[]]].
         * destruct (Hdone y Hy) as [dy Hdy]. exists dy. now right.
         * exists d. now left.
-      + intros y r fs ss is' Hy. apply Hspec. now right.
+      + intros y r fs ss gs is' Hy. apply Hspec. now right.
       + exists b', st2. split; [exact Hrun|]. split; [assumption|].
         now rewrite <- app_assoc in Hall.
   Qed.
@@ -1653,15 +1797,15 @@ End Succeeds.
 
 (** * An incremental build equals a clean build *)
 
-Lemma run_memo L rules src new : forall b st b' st',
-  LoadProofs.run bstate (bstate * failure) (visit L rules src) new (b, st) = inl (b', st') ->
+Lemma run_memo L rules src always now new : forall b st b' st',
+  LoadProofs.run bstate (bstate * failure) (visit L rules src always now) new (b, st) = inl (b', st') ->
   (forall nm d, In (nm, d) (b_memo st) -> In (nm, d) (b_memo st')) /\
   (forall x, In x new -> exists d, In (nname x, d) (b_memo st')).
 Proof.
   induction new as [|x new IH]; intros b st b' st' H; simpl in H.
   - injection H as <- <-. split; [auto|intros x []].
-  - destruct (visit L rules src x st) as [st1|[st1 e]] eqn:Hv; [|discriminate].
-    destruct (visit_memo L rules src x st st1 Hv) as [d Hm].
+  - destruct (visit L rules src always now x st) as [st1|[st1 e]] eqn:Hv; [|discriminate].
+    destruct (visit_memo L rules src always now x st st1 Hv) as [d Hm].
     destruct (IH _ _ _ _ H) as [I1 I2]. split.
     + intros nm d' Hin. apply I1. rewrite Hm. now right.
     + intros y [<-|Hy]; [|auto]. exists d. apply I1. rewrite Hm. now left.
@@ -1689,12 +1833,12 @@ Proof.
     split; [assumption|]. unfold is_rule. now rewrite Hty.
 Qed.
 
-Theorem incremental_eq_clean ts w w1 e1 L :
+Theorem incremental_eq_clean always always' ts w w1 e1 L :
   winv w -> build_in_scope ts w -> load_world w ts = LOk L ->
-  build ts w = (w1, e1, BOk) ->
-  exists w2 e2, build ts (clean w) = (w2, e2, BOk) /\
-    forall r rl fs ss is',
-      reach_rule L ts r -> find_rule r (w_rules w) = Some rl -> r_kind rl = KFileSet fs ss is' ->
+  build_with always ts w = (w1, e1, BOk) ->
+  exists w2 e2, build_with always' ts (clean w) = (w2, e2, BOk) /\
+    forall r rl fs ss gs is',
+      reach_rule L ts r -> find_rule r (w_rules w) = Some rl -> r_kind rl = KFileSet fs ss gs is' ->
       exists l, content_at (w_out w1) (fileset_out r) = Some (CList l) /\
                 content_at (w_out w2) (fileset_out r) = Some (CList l).
 Proof.
@@ -1704,45 +1848,48 @@ Proof.
   destruct (load_world_inv w ts L Hl) as (stl & Hrr & Hre & Htopo & Hts).
   assert (Hsrcnd : forall n, In n L -> ntype n = TSrc -> ndeps n = []).
   { intros n Hn Hty. eapply loaded_src_nodeps; eauto. eapply read_roots_nonsrc; eauto. }
-  destruct (build_unfold ts w L Hl Hwf) as [new [Hn Hbu]].
+  destruct (build_unfold always ts w L Hl Hwf) as [new [Hn Hbu]].
   destruct (post_targets_spec L Hwf ts [] new Hn) as [Hok _].
   assert (Hnodes : forall x, In x new -> find_node (nname x) L = Some x).
   { intros x Hx. destruct (po_nodes _ _ _ _ Hok x Hx) as [H _]. exact H. }
   (* the incremental run *)
   rewrite Hb in Hbu.
-  pose proof (run_inv L (w_rules w) (w_src w) HG new [] (st0_of w) (binv_st0 _ _ _ w Hw) Hnodes) as Hinv1.
-  destruct (LoadProofs.run bstate (bstate * failure) (visit L (w_rules w) (w_src w)) new ([], st0_of w))
+  pose proof (run_inv L (w_rules w) (w_src w) HG always (w_now w) new [] (st0_of w)
+                (binv_st0 _ _ _ w Hw) Hnodes) as Hinv1.
+  destruct (LoadProofs.run bstate (bstate * failure) (visit L (w_rules w) (w_src w) always (w_now w))
+              new ([], st0_of w))
     as [[b1 st1]|[st1 e]] eqn:Hrun1; [|discriminate].
   injection Hbu as -> _.
-  destruct (run_memo _ _ _ _ _ _ _ _ Hrun1) as [_ Hmemo1].
+  destruct (run_memo _ _ _ _ _ _ _ _ _ _ Hrun1) as [_ Hmemo1].
   destruct Hinv1 as [_ Ho1 _ _].
   (* hence every visited file set has a computable content *)
   assert (Hspec : spec_ok L (w_rules w) (w_src w) new).
-  { intros x r fs ss is' Hx Hty Hr Hk. destruct (Hmemo1 x Hx) as [d Hd].
+  { intros x r fs ss gs is' Hx Hty Hr Hk. destruct (Hmemo1 x Hx) as [d Hd].
     destruct Ho1 as [F HF].
-    destruct (HF (nname x) d x r fs ss is' Hd (Hnodes x Hx) Hty Hr Hk) as (l & s & Hsc & _). eauto. }
+    destruct (HF (nname x) d x r fs ss gs is' Hd (Hnodes x Hx) Hty Hr Hk) as (l & s & Hsc & _). eauto. }
   (* the clean run *)
   assert (Hl2 : load_world (clean w) ts = LOk L) by exact Hl.
-  destruct (build_unfold ts (clean w) L Hl2 Hwf) as [new2 [Hn2 Hbu2]].
+  destruct (build_unfold always' ts (clean w) L Hl2 Hwf) as [new2 [Hn2 Hbu2]].
   rewrite Hn in Hn2. injection Hn2 as <-.
   assert (Hw2 : winv (clean w)).
   { split; [intros d b H; discriminate|].
     split; [intros o c s H; discriminate|split; [intros d b o s H; discriminate|intros d d' b b' o s H; discriminate]]. }
-  destruct (run_complete L (w_rules w) (w_src w) HG ts new [] [] (st0_of (clean w)))
+  destruct (run_complete L (w_rules w) (w_src w) HG always' (w_now w) ts new [] [] (st0_of (clean w)))
     as (b2 & st2 & Hrun2 & Hinv2 & Hmemo2); auto.
   { exact (binv_st0 L (w_rules w) (w_src w) (clean w) Hw2). }
   { intros y []. }
   change (w_rules (clean w)) with (w_rules w) in Hbu2.
   change (w_src (clean w)) with (w_src w) in Hbu2.
+  change (w_now (clean w)) with (w_now w) in Hbu2.
   rewrite Hrun2 in Hbu2.
   exists (with_state (clean w) st2), (b_exec st2). split; [exact Hbu2|].
-  intros r rl fs ss is' Hreach Hrl Hk.
+  intros r rl fs ss gs is' Hreach Hrl Hk.
   apply (reach_rule_visited L ts new r Hwf Hts Hsrcnd Hn) in Hreach.
   destruct Hreach as (x & Hx & Hnm & Hty). subst r.
   destruct (Hmemo1 x Hx) as [d1 Hd1]. destruct (Hmemo2 x Hx) as [d2 Hd2].
   destruct Ho1 as [F1 HF1]. destruct Hinv2 as [_ [F2 HF2] _ _].
-  destruct (HF1 (nname x) d1 x rl fs ss is' Hd1 (Hnodes x Hx) Hty Hrl Hk) as (l1 & s1 & Hs1 & Hl1).
-  destruct (HF2 (nname x) d2 x rl fs ss is' Hd2 (Hnodes x Hx) Hty Hrl Hk) as (l2 & s2 & Hs2 & Hl2').
+  destruct (HF1 (nname x) d1 x rl fs ss gs is' Hd1 (Hnodes x Hx) Hty Hrl Hk) as (l1 & s1 & Hs1 & Hl1).
+  destruct (HF2 (nname x) d2 x rl fs ss gs is' Hd2 (Hnodes x Hx) Hty Hrl Hk) as (l2 & s2 & Hs2 & Hl2').
   pose proof (scont_unique L (w_rules w) (w_src w) HG _ _ _ _ _ Hs1 Hs2) as <-.
   exists l1. unfold content_at. simpl. now rewrite Hl1, Hl2'.
 Qed.
@@ -1750,10 +1897,10 @@ Qed.
 (** * What one visit changes *)
 
 Definition rd_name (rd : rdigest) : name :=
-  match rd with RDFileSet n _ _ _ => n | RDBundle n => n end.
+  match rd with RDFileSet n _ _ _ _ => n | RDBundle n => n end.
 
 Definition dname (d : digest) : option name :=
-  match d with DRuleD rd _ _ => Some (rd_name rd) | _ => None end.
+  match d with DRuleD rd _ _ _ => Some (rd_name rd) | _ => None end.
 
 Lemma rdigest_of_name r : rd_name (rdigest_of r) = r_name r.
 Proof. unfold rdigest_of. destruct (r_kind r); reflexivity. Qed.
@@ -1761,10 +1908,11 @@ Proof. unfold rdigest_of. destruct (r_kind r); reflexivity. Qed.
 Lemma sdig_dname L rules src f x d n :
   find_node x L = Some n -> ntype n = TRule -> sdig L rules src f x = Some d -> dname d = Some x.
 Proof.
-  intros Hn Hty Hd. destruct f as [|f]; [discriminate|]. simpl in Hd. rewrite Hn, Hty in Hd.
-  destruct (find_rule x rules) as [r|] eqn:Hr; [|discriminate].
-  destruct (collect _ (ndeps n)); [|discriminate]. injection Hd as <-. simpl.
-  now rewrite rdigest_of_name, (find_rule_name _ _ _ Hr).
+  intros Hn Hty Hd.
+  destruct (find_rule x rules) as [r|] eqn:Hr.
+  - destruct (sdig_of_rule _ _ _ _ _ _ _ _ Hn Hty Hr Hd) as (f' & dd & ex & _ & _ & _ & ->). simpl.
+    now rewrite rdigest_of_name, (find_rule_name _ _ _ Hr).
+  - destruct f as [|f]; [discriminate|]. simpl in Hd. rewrite Hn, Hty, Hr in Hd. discriminate.
 Qed.
 
 Lemma entry_ok_shape out d b :
@@ -1778,28 +1926,17 @@ Proof.
   - subst b. intros o s [].
 Qed.
 
-Definition hitb (st : bstate) (d : digest) : bool :=
-  match cache_get d (b_cache st) with
-  | Some b => same_built (b_out st) b
-  | None => false
-  end.
-
-Lemma hitb_valid st d : hitb st d = true <-> valid_cached (b_out st) (b_cache st) d.
-Proof.
-  unfold hitb, valid_cached. destruct (cache_get d (b_cache st)) as [b|].
-  - split; [eauto|]. intros [b' [[= <-] H]]. exact H.
-  - split; [discriminate|]. intros [b' [H _]]. discriminate.
-Qed.
-
-(** same validity when neither the entry nor the outputs it names changed *)
-Lemma valid_cached_same out cache out' cache' d x0 :
+(** same validity when neither the entry, nor its creation time, nor the
+    outputs it names changed *)
+Lemma valid_cached_same now out cache times out' cache' times' d x0 :
   cache_inv out cache -> dname d = Some x0 ->
   cache_get d cache' = cache_get d cache ->
+  time_get d times' = time_get d times ->
   lookup (fileset_out x0) out' = lookup (fileset_out x0) out ->
-  (valid_cached out' cache' d <-> valid_cached out cache d).
+  (valid_cached now out' cache' times' d <-> valid_cached now out cache times d).
 Proof.
-  intros Hinv Hdn Hget Hl. unfold valid_cached. rewrite Hget.
-  split; intros [b [Hb Hs]]; exists b; (split; [assumption|]);
+  intros Hinv Hdn Hget Ht Hl. unfold valid_cached, live. rewrite Hget, Ht.
+  split; intros [b [Hb [Hlv Hs]]]; exists b; (split; [assumption|split; [assumption|]]);
     destruct (entry_ok_shape _ _ _ (Hinv d b Hb)) as (x1 & Hdn1 & Hshape);
     rewrite Hdn in Hdn1; injection Hdn1 as <-;
     unfold same_built in *; rewrite forallb_forall in *; intros [o s] Hin;
@@ -1808,31 +1945,44 @@ Proof.
   - now rewrite Hl.
 Qed.
 
+Lemma expire_pos now : N.ltb now (now + expire) = true.
+Proof. apply N.ltb_lt. unfold expire. lia. Qed.
+
+Lemma live_put now d times : live now ((d, now) :: times) d = true.
+Proof. unfold live. cbn [time_get]. rewrite digest_eqb_refl. apply expire_pos. Qed.
+
 Section Effect.
   Variables (L : list node) (rules : list rule) (src : list (name * stat)).
+  Variables (always : bool) (now : N).
 
-  Let vis := visit L rules src.
+  Let vis := visit L rules src always now.
 
   (** the effect of a successful visit *)
   Inductive effect (x : node) (st st' : bstate) : Prop :=
   | eff_other d :           (* not a rule: only the memo grows *)
       ntype x <> TRule -> st' = remember (nname x) d st -> effect x st st'
-  | eff_hit r dd :          (* a rule with a valid cache entry: nothing happens *)
+  | eff_hit r dd ex :       (* a rule with a valid cache entry: nothing happens *)
       ntype x = TRule -> find_rule (nname x) rules = Some r ->
       dep_digests (b_memo st) (ndeps x) = Some dd ->
-      let d := DRuleD (rdigest_of r) (canon_deps dd) (node_outs rules x) in
-      hitb st d = true -> st' = remember (nname x) d st -> effect x st st'
-  | eff_exec r dd :         (* executed *)
+      rule_extras L (map fst src) (b_out st) r = inl ex ->
+      let d := DRuleD (rdigest_of r) (canon_deps dd) (node_outs rules x) ex in
+      hitb now st d = true -> always = false -> st' = remember (nname x) d st -> effect x st st'
+  | eff_exec r dd ex :      (* executed *)
       ntype x = TRule -> find_rule (nname x) rules = Some r ->
       dep_digests (b_memo st) (ndeps x) = Some dd ->
-      let d := DRuleD (rdigest_of r) (canon_deps dd) (node_outs rules x) in
-      hitb st d = false ->
+      rule_extras L (map fst src) (b_out st) r = inl ex ->
+      let d := DRuleD (rdigest_of r) (canon_deps dd) (node_outs rules x) ex in
+      (hitb now st d = false \/ always = true) ->
       b_memo st' = (nname x, d) :: b_memo st ->
       b_exec st' = (b_exec st ++ [nname x])%list ->
-      hitb st' d = true ->
+      hitb now st' d = true ->
       (forall d0, d0 <> d -> cache_get d0 (b_cache st') = cache_get d0 (b_cache st)) ->
+      (forall d0, d0 <> d -> time_get d0 (b_times st') = time_get d0 (b_times st)) ->
       (forall o, o <> fileset_out (nname x) -> lookup o (b_out st') = lookup o (b_out st)) ->
       effect x st st'.
+
+  Lemma time_get_cons_other d d0 t times : d0 <> d -> time_get d0 ((d, t) :: times) = time_get d0 times.
+  Proof. intros H. simpl. apply digest_eqb_false in H. now rewrite H. Qed.
 
   Lemma visit_effect x st st' : vis x st = inl st' -> effect x st st'.
   Proof.
@@ -1841,33 +1991,43 @@ Section Effect.
     destruct (ntype x) eqn:Hty.
     - destruct (lookup (nname x) src); [|discriminate]. intros [= <-].
       eapply eff_other; [congruence|reflexivity].
-    - destruct (find_rule (nname x) rules) as [r|] eqn:Hr; [|discriminate]. cbv zeta.
-      set (d := DRuleD (rdigest_of r) (canon_deps dd) (node_outs rules x)).
-      fold (hitb st d). destruct (hitb st d) eqn:Hhit.
-      + intros [= <-]. eapply eff_hit; eauto.
-      + unfold exec_rule, log. cbn [b_out b_cache b_clock b_memo b_exec].
+    - destruct (find_rule (nname x) rules) as [r|] eqn:Hr; [|discriminate].
+      destruct (rule_extras L (map fst src) (b_out st) r) as [ex|] eqn:Hex; [|discriminate].
+      cbv zeta.
+      set (d := DRuleD (rdigest_of r) (canon_deps dd) (node_outs rules x) ex).
+      destruct (hitb now st d && negb always) eqn:Hhit.
+      + apply andb_true_iff in Hhit. destruct Hhit as [H1 H2]. apply negb_true_iff in H2.
+        intros [= <-]. eapply eff_hit; eauto.
+      + assert (Hcond : hitb now st d = false \/ always = true).
+        { apply andb_false_iff in Hhit. destruct Hhit as [H|H]; [now left|right].
+          now apply negb_false_iff in H. }
+        unfold exec_rule, log. cbn [b_out b_cache b_clock b_memo b_exec b_times].
         pose proof (find_rule_name _ _ _ Hr) as Hrn.
-        destruct (r_kind r) as [files sels incs|ds] eqn:Hk.
-        * destruct (expand_files (map fst src) files sels) as [fl|]; [|discriminate].
+        destruct (r_kind r) as [files sels igns incs|ds] eqn:Hk.
+        * destruct (expand_files (map fst src) files sels igns) as [fl|]; [|discriminate].
           destruct (fileset_content L rules src (b_out st) fl incs) as [l|]; [|discriminate].
           rewrite Hrn.
           assert (Hno : node_outs rules x = [fileset_out (nname x)])
             by (unfold node_outs; now rewrite Hr, Hk).
           rewrite Hno. unfold new_built. cbn [fold_right]. rewrite lookup_set_same.
-          intros [= <-]. eapply eff_exec with (r := r) (dd := dd); eauto; fold d;
-            unfold remember; cbn [b_out b_cache b_clock b_memo b_exec].
-          -- unfold hitb. cbn [b_out b_cache]. rewrite cache_get_put_same.
+          intros [= <-]. eapply eff_exec with (r := r) (dd := dd) (ex := ex); eauto; fold d;
+            unfold remember; cbn [b_out b_cache b_clock b_memo b_exec b_times].
+          -- unfold hitb. cbn [b_out b_cache b_times]. rewrite cache_get_put_same.
+             rewrite live_put. cbn [andb].
              apply same_built_single. rewrite lookup_set_same. eauto.
           -- intros d0 Hne. rewrite cache_get_put_other by congruence.
              apply cache_get_remove_other. congruence.
+          -- intros d0 Hne. now apply time_get_cons_other.
           -- intros o Hne. apply lookup_set_other. congruence.
         * assert (Hno : node_outs rules x = []) by (unfold node_outs; now rewrite Hr, Hk).
           rewrite Hno. cbn [new_built fold_right].
-          intros [= <-]. eapply eff_exec with (r := r) (dd := dd); eauto; fold d;
-            unfold remember; cbn [b_out b_cache b_clock b_memo b_exec].
-          -- unfold hitb. cbn [b_out b_cache]. rewrite cache_get_put_same. reflexivity.
+          intros [= <-]. eapply eff_exec with (r := r) (dd := dd) (ex := ex); eauto; fold d;
+            unfold remember; cbn [b_out b_cache b_clock b_memo b_exec b_times].
+          -- unfold hitb. cbn [b_out b_cache b_times]. rewrite cache_get_put_same.
+             rewrite live_put. reflexivity.
           -- intros d0 Hne. rewrite cache_get_put_other by congruence.
              apply cache_get_remove_other. congruence.
+          -- intros d0 Hne. now apply time_get_cons_other.
     - intros [= <-]. eapply eff_other; [congruence|reflexivity].
   Qed.
 End Effect.
@@ -1883,17 +2043,19 @@ Section Track.
   Variable ts : list name.
   Variable st0 : bstate.          (* the state the build started from *)
 
-  Let vis := visit L rules src.
+  Variables (always : bool) (now : N).
+
+  Let vis := visit L rules src always now.
 
   Record trk (done rest : list node) (st : bstate) : Prop := mkTrk {
     tk_exec : forall y d, In y done -> ntype y = TRule -> In (nname y, d) (b_memo st) ->
-                (In (nname y) (b_exec st) <-> hitb st0 d = false);
+                (In (nname y) (b_exec st) <-> hitb now st0 d = false \/ always = true);
     tk_only : forall nm, In nm (b_exec st) ->
                 exists y, In y done /\ nname y = nm /\ ntype y = TRule;
     tk_rest : forall x d F, In x rest -> ntype x = TRule ->
-                sdig L rules src F (nname x) = Some d -> hitb st d = hitb st0 d;
+                sdig L rules src F (nname x) = Some d -> hitb now st d = hitb now st0 d;
     tk_valid : forall y d, In y done -> ntype y = TRule -> In (nname y, d) (b_memo st) ->
-                 hitb st d = true;
+                 hitb now st d = true;
     tk_memo_done : forall y, In y done -> exists d, In (nname y, d) (b_memo st);
     tk_memo_only : forall nm d, In (nm, d) (b_memo st) -> In nm (names done)
   }.
@@ -1901,10 +2063,11 @@ Section Track.
   Lemma hitb_same st st' d x0 :
     cache_inv (b_out st) (b_cache st) -> dname d = Some x0 ->
     cache_get d (b_cache st') = cache_get d (b_cache st) ->
+    time_get d (b_times st') = time_get d (b_times st) ->
     lookup (fileset_out x0) (b_out st') = lookup (fileset_out x0) (b_out st) ->
-    hitb st' d = hitb st d.
+    hitb now st' d = hitb now st d.
   Proof.
-    intros Hinv Hdn Hg Hl. apply bool_eq_iff. rewrite !hitb_valid.
+    intros Hinv Hdn Hg Ht Hl. apply bool_eq_iff. rewrite !hitb_valid.
     eapply valid_cached_same; eauto.
   Qed.
 
@@ -1922,7 +2085,7 @@ Section Track.
     simpl in Hrun. destruct (vis x st) as [st1|[st1 e]] eqn:Hv; [|discriminate].
     assert (Hxin : In x (done ++ x :: rest)) by (apply in_app_iff; right; now left).
     destruct (po_nodes _ _ _ _ Hok x Hxin) as (Hx & _).
-    pose proof (visit_inv L rules src HG x st Hinv Hx) as Hinv1. fold vis in Hinv1. rewrite Hv in Hinv1.
+    pose proof (visit_inv L rules src HG always now x st Hinv Hx) as Hinv1. fold vis in Hinv1. rewrite Hv in Hinv1.
     pose proof (po_nodup _ _ _ _ Hok) as Hnd. unfold names in Hnd. rewrite map_app in Hnd. simpl in Hnd.
     apply NoDup_app_inv in Hnd. destruct Hnd as (Hnd1 & Hnd2 & Hdisj).
     inversion Hnd2 as [|? ? Hxrest Hnd3]; subst.
@@ -1939,8 +2102,8 @@ Section Track.
     { intros y d Hin. destruct Hm as [F HF]. exists F. now apply HF. }
     (* the state after visiting x satisfies the tracking invariant for done ++ [x] *)
     assert (Htk1 : trk (done ++ [x]) rest st1).
-    { pose proof (visit_effect L rules src x st st1 Hv) as Heff.
-      destruct Heff as [d Hnr ->|r dd Hty Hr Hdd d Hhit ->|r dd Hty Hr Hdd d Hhit Hmemo Hexec Hhit1 Hcache Hout].
+    { pose proof (visit_effect L rules src always now x st st1 Hv) as Heff.
+      destruct Heff as [d Hnr ->|r dd ex Hty Hr Hdd Hexr d Hhit Halw ->|r dd ex Hty Hr Hdd Hexr d Hhit Hmemo Hexec Hhit1 Hcache Htime Hout].
       - (* not a rule *)
         constructor; simpl.
         + intros y d' Hy Hty [[= E1 E2]|Hin].
@@ -1954,7 +2117,7 @@ Section Track.
           * apply in_app_iff in Hy. destruct Hy as [Hy|[<-|[]]]; [|congruence].
             exfalso. apply Hxdone. rewrite E1. now apply in_map.
           * apply in_app_iff in Hy. destruct Hy as [Hy|[<-|[]]]; [|congruence].
-            change (hitb (remember (nname x) d st) d') with (hitb st d'). eauto.
+            change (hitb now (remember (nname x) d st) d') with (hitb now st d'). eauto.
         + intros y Hy. apply in_app_iff in Hy. destruct Hy as [Hy|[<-|[]]].
           * destruct (Tm y Hy) as [dy Hdy]. exists dy. now right.
           * exists d. now left.
@@ -1963,12 +2126,13 @@ Section Track.
           * left. eapply Tmo; eauto.
       - (* a hit: nothing changes *)
         assert (Hd : exists F, sdig L rules src F (nname x) = Some d).
-        { destruct Hm as [F HF]. exists (S F). exact (visit_digest L rules src x r _ dd F Hx Hty Hr HF Hdd). }
-        assert (Hh0 : hitb st0 d = true).
+        { destruct Hm as [F HF]. exists (S F).
+          exact (visit_digest L rules src HG x r _ dd F _ ex Hx Hty Hr HF Hdd Hexr). }
+        assert (Hh0 : hitb now st0 d = true).
         { destruct Hd as [F HF]. rewrite <- (Tr x d F (or_introl eq_refl) Hty HF). exact Hhit. }
         constructor; simpl.
         + intros y d' Hy Hty' [[= E1 E2]|Hin].
-          * subst d'. split; [|congruence]. intros Hex. exfalso. apply Hxdone. rewrite E1.
+          * subst d'. split; [|intros [H|H]; congruence]. intros Hex. exfalso. apply Hxdone. rewrite E1.
             destruct (To _ Hex) as (y' & Hy' & E' & _). rewrite <- E'. now apply in_map.
           * apply in_app_iff in Hy. destruct Hy as [Hy|[<-|[]]]; [eauto|].
             exfalso. apply Hxdone. eapply Tmo; eauto.
@@ -1978,7 +2142,7 @@ Section Track.
         + intros y d' Hy Hty' [[= E1 E2]|Hin].
           * subst d'. exact Hhit.
           * apply in_app_iff in Hy. destruct Hy as [Hy|[<-|[]]].
-            -- change (hitb (remember (nname x) d st) d') with (hitb st d'). eauto.
+            -- change (hitb now (remember (nname x) d st) d') with (hitb now st d'). eauto.
             -- exfalso. apply Hxdone. eapply Tmo; eauto.
         + intros y Hy. apply in_app_iff in Hy. destruct Hy as [Hy|[<-|[]]].
           * destruct (Tm y Hy) as [dy Hdy]. exists dy. now right.
@@ -1988,17 +2152,20 @@ Section Track.
           * left. eapply Tmo; eauto.
       - (* executed *)
         assert (Hd : exists F, sdig L rules src F (nname x) = Some d).
-        { destruct Hm as [F HF]. exists (S F). exact (visit_digest L rules src x r _ dd F Hx Hty Hr HF Hdd). }
-        assert (Hh0 : hitb st0 d = false).
-        { destruct Hd as [F HF]. rewrite <- (Tr x d F (or_introl eq_refl) Hty HF). exact Hhit. }
+        { destruct Hm as [F HF]. exists (S F).
+          exact (visit_digest L rules src HG x r _ dd F _ ex Hx Hty Hr HF Hdd Hexr). }
+        assert (Hh0 : hitb now st0 d = false \/ always = true).
+        { destruct Hhit as [Hhit|Hhit]; [left|now right].
+          destruct Hd as [F HF]. rewrite <- (Tr x d F (or_introl eq_refl) Hty HF). exact Hhit. }
         assert (Hdnx : dname d = Some (nname x)) by (apply Hdig; auto).
         (* validity of every other rule digest is untouched *)
         assert (Hsame : forall y dy, In y (done ++ x :: rest) -> nname y <> nname x -> ntype y = TRule ->
                           (exists F, sdig L rules src F (nname y) = Some dy) ->
-                          hitb st1 dy = hitb st dy).
+                          hitb now st1 dy = hitb now st dy).
         { intros y dy Hy Hne Hty' Hdy. pose proof (Hdig y dy Hy Hty' Hdy) as Hdny.
           apply hitb_same with (x0 := nname y); auto.
           - apply Hcache. eapply dname_neq; eauto.
+          - apply Htime. eapply dname_neq; eauto.
           - apply Hout. intros E. apply fileset_out_inj in E. congruence. }
         constructor.
         + intros y d' Hy Hty' Hin. rewrite Hmemo in Hin. rewrite Hexec, in_app_iff.
@@ -2036,67 +2203,74 @@ End Track.
 
 (** * A rule executes exactly when its action digest has no valid cache entry *)
 
-Lemma trk_init L rules src st0 new :
-  b_memo st0 = [] -> b_exec st0 = [] -> trk L rules src st0 [] new st0.
+Lemma trk_init L rules src st0 always now new :
+  b_memo st0 = [] -> b_exec st0 = [] -> trk L rules src st0 always now [] new st0.
 Proof.
   intros Hm He. constructor; rewrite ?Hm, ?He; simpl; try tauto.
 Qed.
 
 (** common set-up of a successful build *)
-Lemma build_ok_run ts w w1 e1 L :
-  winv w -> build_in_scope ts w -> load_world w ts = LOk L -> build ts w = (w1, e1, BOk) ->
+Lemma build_ok_run always ts w w1 e1 L :
+  winv w -> build_in_scope ts w -> load_world w ts = LOk L ->
+  build_with always ts w = (w1, e1, BOk) ->
   exists new b1 st1,
     wfG L (w_rules w) (w_src w) /\
     post_targets L ts [] = Some new /\ post_ok L ts [] new /\
-    LoadProofs.run bstate (bstate * failure) (visit L (w_rules w) (w_src w)) new ([], st0_of w)
-      = inl (b1, st1) /\
+    LoadProofs.run bstate (bstate * failure) (visit L (w_rules w) (w_src w) always (w_now w))
+      new ([], st0_of w) = inl (b1, st1) /\
     w1 = with_state w st1 /\ e1 = b_exec st1 /\
     binv L (w_rules w) (w_src w) st1 /\
-    trk L (w_rules w) (w_src w) (st0_of w) new [] st1.
+    trk L (w_rules w) (w_src w) (st0_of w) always (w_now w) new [] st1.
 Proof.
   intros Hw Hs Hl Hb. unfold build_in_scope in Hs. rewrite Hl in Hs.
   pose proof (load_world_wfG w ts L Hl Hs) as HG.
-  destruct (build_unfold ts w L Hl (wg_wf _ _ _ HG)) as [new [Hn Hbu]].
+  destruct (build_unfold always ts w L Hl (wg_wf _ _ _ HG)) as [new [Hn Hbu]].
   destruct (post_targets_spec L (wg_wf _ _ _ HG) ts [] new Hn) as [Hok _].
   rewrite Hb in Hbu.
-  destruct (LoadProofs.run bstate (bstate * failure) (visit L (w_rules w) (w_src w)) new ([], st0_of w))
+  destruct (LoadProofs.run bstate (bstate * failure) (visit L (w_rules w) (w_src w) always (w_now w))
+              new ([], st0_of w))
     as [[b1 st1]|[st1 e]] eqn:Hrun; [|discriminate].
   injection Hbu as -> ->.
-  pose proof (run_track L (w_rules w) (w_src w) HG ts (st0_of w) new [] [] (st0_of w) b1 st1
-                Hok (binv_st0 _ _ _ w Hw) (trk_init _ _ _ (st0_of w) new eq_refl eq_refl) Hrun)
+  pose proof (run_track L (w_rules w) (w_src w) HG ts (st0_of w) always (w_now w) new [] [] (st0_of w) b1 st1
+                Hok (binv_st0 _ _ _ w Hw) (trk_init _ _ _ (st0_of w) _ _ new eq_refl eq_refl) Hrun)
     as [Hinv Htk].
   exists new, b1, st1.
   split; [exact HG|]. split; [exact Hn|]. split; [exact Hok|]. split; [exact Hrun|].
   split; [reflexivity|]. split; [reflexivity|]. split; assumption.
 Qed.
 
-Theorem exec_iff ts w w1 e1 L :
-  winv w -> build_in_scope ts w -> load_world w ts = LOk L -> build ts w = (w1, e1, BOk) ->
+(** validity of a cache entry in a world *)
+Definition wvalid (w : world) (d : digest) : Prop :=
+  valid_cached (w_now w) (w_out w) (w_cache w) (w_times w) d.
+
+Theorem exec_iff always ts w w1 e1 L :
+  winv w -> build_in_scope ts w -> load_world w ts = LOk L ->
+  build_with always ts w = (w1, e1, BOk) ->
   forall r,
     In r e1 <->
     reach_rule L ts r /\
-    exists F d, sdig L (w_rules w) (w_src w) F r = Some d /\
-                ~ valid_cached (w_out w) (w_cache w) d.
+    exists F d, sdig L (w_rules w) (w_src w) F r = Some d /\ (~ wvalid w d \/ always = true).
 Proof.
   intros Hw Hs Hl Hb r.
-  destruct (build_ok_run ts w w1 e1 L Hw Hs Hl Hb)
+  destruct (build_ok_run always ts w w1 e1 L Hw Hs Hl Hb)
     as (new & b1 & st1 & HG & Hn & Hok & Hrun & -> & -> & Hinv & Htk).
   destruct (load_world_inv w ts L Hl) as (stl & Hrr & Hre & Htopo & Hts).
   assert (Hsrcnd : forall n, In n L -> ntype n = TSrc -> ndeps n = []).
   { intros n Hn' Hty. eapply loaded_src_nodeps; eauto. eapply read_roots_nonsrc; eauto. }
   rewrite (reach_rule_visited L ts new r (wg_wf _ _ _ HG) Hts Hsrcnd Hn).
   destruct Htk as [Ta To _ _ Tm _]. destruct Hinv as [[F HF] _ _ _].
-  assert (Hvalid0 : forall d, hitb (st0_of w) d = false <-> ~ valid_cached (w_out w) (w_cache w) d).
-  { intros d. rewrite <- (hitb_valid (st0_of w) d). destruct (hitb (st0_of w) d); intuition congruence. }
+  assert (Hvalid0 : forall d, hitb (w_now w) (st0_of w) d = false <-> ~ wvalid w d).
+  { intros d. unfold wvalid. rewrite <- (hitb_valid (w_now w) (st0_of w) d).
+    destruct (hitb (w_now w) (st0_of w) d); intuition congruence. }
   split.
   - intros Hr. destruct (To r Hr) as (y & Hy & <- & Hty).
     split; [exists y; auto|].
     destruct (Tm y Hy) as [d Hd]. exists F, d. split; [now apply HF|].
-    apply Hvalid0. now apply (Ta y d Hy Hty Hd).
+    destruct (proj1 (Ta y d Hy Hty Hd) Hr) as [H|H]; [left; now apply Hvalid0|now right].
   - intros [(x & Hx & <- & Hty) (F' & d & Hd & Hnv)].
     destruct (Tm x Hx) as [d' Hd']. pose proof (HF _ _ Hd') as Hd2.
     pose proof (sdig_unique _ _ _ _ _ _ _ _ Hd Hd2) as <-.
-    apply (Ta x d Hx Hty Hd'). now apply Hvalid0.
+    apply (Ta x d Hx Hty Hd'). destruct Hnv as [H|H]; [left; now apply Hvalid0|now right].
 Qed.
 
 (** * A rebuild with nothing changed executes nothing *)
@@ -2105,8 +2279,9 @@ Section AllHits.
   Variables (L : list node) (rules : list rule) (src : list (name * stat)).
   Hypothesis HG : wfG L rules src.
   Variable ts : list name.
+  Variable now : N.
 
-  Let vis := visit L rules src.
+  Let vis := visit L rules src false now.
 
   Lemma run_all_hits : forall rest done b st,
     post_ok L ts [] (done ++ rest) ->
@@ -2114,79 +2289,83 @@ Section AllHits.
     (forall y, In y done -> exists d, In (nname y, d) (b_memo st)) ->
     spec_ok L rules src rest ->
     (forall x F d, In x rest -> ntype x = TRule -> sdig L rules src F (nname x) = Some d ->
-                   hitb st d = true) ->
+                   hitb now st d = true) ->
     exists b' st', LoadProofs.run bstate (bstate * failure) vis rest (b, st) = inl (b', st') /\
       b_out st' = b_out st /\ b_cache st' = b_cache st /\ b_clock st' = b_clock st /\
-      b_exec st' = b_exec st.
+      b_exec st' = b_exec st /\ b_times st' = b_times st.
   Proof.
     induction rest as [|x rest IH]; intros done b st Hok Hinv Hdone Hspec Hhits.
-    - exists b, st. simpl. auto.
+    - exists b, st. simpl. auto 6.
     - simpl.
       destruct (po_nodes _ _ _ _ Hok x) as (Hx & _); [apply in_app_iff; right; now left|].
       assert (Hdeps : forall k, In k (ndeps x) -> exists d, In (k, d) (b_memo st)).
       { intros k Hk. destruct (po_deps _ _ _ _ Hok done x rest eq_refl k Hk) as [[]|Hkd].
         apply in_map_iff in Hkd. destruct Hkd as [y [<- Hy]]. auto. }
-      destruct (visit_succeeds L rules src HG x st Hinv Hx Hdeps) as [st1 Hv].
-      { intros y r fs ss is' [<-|[]]. apply Hspec. now left. }
+      destruct (visit_succeeds L rules src HG false now x st Hinv Hx Hdeps) as [st1 Hv].
+      { intros y r fs ss gs is' [<-|[]]. apply Hspec. now left. }
       fold vis in Hv. rewrite Hv.
-      pose proof (visit_inv L rules src HG x st Hinv Hx) as Hinv1. fold vis in Hinv1. rewrite Hv in Hinv1.
-      destruct (visit_memo L rules src x st st1 Hv) as [dx Hmemo].
+      pose proof (visit_inv L rules src HG false now x st Hinv Hx) as Hinv1. fold vis in Hinv1.
+      rewrite Hv in Hinv1.
+      destruct (visit_memo L rules src false now x st st1 Hv) as [dx Hmemo].
       (* the visit changed nothing but the memo *)
       assert (Hsame : b_out st1 = b_out st /\ b_cache st1 = b_cache st /\
-                      b_clock st1 = b_clock st /\ b_exec st1 = b_exec st).
-      { destruct (visit_effect L rules src x st st1 Hv)
-          as [d Hnr ->|r dd Hty Hr Hdd d Hhit ->|r dd Hty Hr Hdd d Hhit _ _ _ _ _]; simpl; auto.
+                      b_clock st1 = b_clock st /\ b_exec st1 = b_exec st /\ b_times st1 = b_times st).
+      { destruct (visit_effect L rules src false now x st st1 Hv)
+          as [d Hnr ->|r dd ex Hty Hr Hdd Hexr d Hhit _ ->|r dd ex Hty Hr Hdd Hexr d Hhit _ _ _ _ _ _];
+          simpl; auto 6.
         exfalso. destruct Hinv as [[F HF] _ _ _].
-        pose proof (visit_digest L rules src x r _ dd F Hx Hty Hr HF Hdd) as Hd.
+        pose proof (visit_digest L rules src HG x r _ dd F _ ex Hx Hty Hr HF Hdd Hexr) as Hd.
+        destruct Hhit as [Hhit|Hhit]; [|discriminate].
         rewrite (Hhits x (S F) d (or_introl eq_refl) Hty Hd) in Hhit. discriminate. }
-      destruct Hsame as (E1 & E2 & E3 & E4).
-      destruct (IH (done ++ [x])%list (nname x :: b) st1) as (b' & st' & Hrun & A & B & C & D).
+      destruct Hsame as (E1 & E2 & E3 & E4 & E5).
+      destruct (IH (done ++ [x])%list (nname x :: b) st1) as (b' & st' & Hrun & A & B & C & D & E).
       + now rewrite <- app_assoc.
       + assumption.
       + intros y Hy. rewrite Hmemo. apply in_app_iff in Hy. destruct Hy as [Hy|[<-|[]]].
         * destruct (Hdone y Hy) as [dy Hdy]. exists dy. now right.
         * exists dx. now left.
-      + intros y r fs ss is' Hy. apply Hspec. now right.
-      + intros z F d Hz Htz Hsz. unfold hitb. rewrite E1, E2.
+      + intros y r fs ss gs is' Hy. apply Hspec. now right.
+      + intros z F d Hz Htz Hsz. unfold hitb. rewrite E1, E2, E5.
         exact (Hhits z F d (or_intror Hz) Htz Hsz).
       + exists b', st'. split; [exact Hrun|]. repeat split; congruence.
   Qed.
 End AllHits.
 
-Theorem noop_rebuild ts w w1 e1 :
-  winv w -> build_in_scope ts w -> build ts w = (w1, e1, BOk) ->
+Theorem noop_rebuild always ts w w1 e1 :
+  winv w -> build_in_scope ts w -> build_with always ts w = (w1, e1, BOk) ->
   build ts w1 = (w1, [], BOk).
 Proof.
   intros Hw Hs Hb.
   destruct (load_world w ts) as [|es|L] eqn:Hl;
-    try (unfold build in Hb; rewrite Hl in Hb; discriminate).
-  destruct (build_ok_run ts w w1 e1 L Hw Hs Hl Hb)
+    try (unfold build_with in Hb; rewrite Hl in Hb; discriminate).
+  destruct (build_ok_run always ts w w1 e1 L Hw Hs Hl Hb)
     as (new & b1 & st1 & HG & Hn & Hok & Hrun & -> & -> & Hinv & Htk).
   set (w1 := with_state w st1).
   assert (Hl1 : load_world w1 ts = LOk L) by exact Hl.
-  destruct (build_unfold ts w1 L Hl1 (wg_wf _ _ _ HG)) as [new1 [Hn1 Hbu]].
+  destruct (build_unfold false ts w1 L Hl1 (wg_wf _ _ _ HG)) as [new1 [Hn1 Hbu]].
   rewrite Hn in Hn1. injection Hn1 as <-.
   change (w_rules w1) with (w_rules w) in Hbu. change (w_src w1) with (w_src w) in Hbu.
+  change (w_now w1) with (w_now w) in Hbu.
   (* every visited file set has a computable content; every visited rule is validly cached *)
-  destruct (run_memo _ _ _ _ _ _ _ _ Hrun) as [_ Hmemo1].
+  destruct (run_memo _ _ _ _ _ _ _ _ _ _ Hrun) as [_ Hmemo1].
   assert (Hnodes : forall x, In x new -> find_node (nname x) L = Some x).
   { intros x Hx. destruct (po_nodes _ _ _ _ Hok x Hx) as [H _]. exact H. }
   assert (Hspec : spec_ok L (w_rules w) (w_src w) new).
-  { intros x r fs ss is' Hx Hty Hr Hk. destruct (Hmemo1 x Hx) as [d Hd].
+  { intros x r fs ss gs is' Hx Hty Hr Hk. destruct (Hmemo1 x Hx) as [d Hd].
     destruct Hinv as [_ [F HF] _ _].
-    destruct (HF (nname x) d x r fs ss is' Hd (Hnodes x Hx) Hty Hr Hk) as (l & s & Hsc & _). eauto. }
+    destruct (HF (nname x) d x r fs ss gs is' Hd (Hnodes x Hx) Hty Hr Hk) as (l & s & Hsc & _). eauto. }
   assert (Hw1 : winv w1).
   { destruct Hinv as [_ _ Hc Hf]. split; assumption. }
-  destruct (run_all_hits L (w_rules w) (w_src w) HG ts new [] [] (st0_of w1))
-    as (b2 & st2 & Hrun2 & A & B & C & D); auto.
+  destruct (run_all_hits L (w_rules w) (w_src w) HG ts (w_now w) new [] [] (st0_of w1))
+    as (b2 & st2 & Hrun2 & A & B & C & D & E); auto.
   - exact (binv_st0 _ _ _ w1 Hw1).
   - intros y [].
   - intros x F d Hx Hty Hd. destruct (Hmemo1 x Hx) as [d' Hd'].
     destruct Hinv as [[F1 HF1] _ _ _]. pose proof (HF1 _ _ Hd') as Hd2.
     pose proof (sdig_unique _ _ _ _ _ _ _ _ Hd Hd2) as ->.
-    exact (tk_valid _ _ _ _ _ _ _ Htk x d' Hx Hty Hd').
-  - rewrite Hrun2 in Hbu. rewrite Hbu. simpl in A, B, C, D.
-    unfold with_state. simpl. rewrite A, B, C, D. reflexivity.
+    exact (tk_valid _ _ _ _ _ _ _ _ _ Htk x d' Hx Hty Hd').
+  - unfold build. rewrite Hbu, Hrun2. simpl in A, B, C, D, E.
+    unfold with_state. simpl. rewrite A, B, C, D, E. reflexivity.
 Qed.
 
 (** * A rule whose execution failed has no cache entry *)
@@ -2204,9 +2383,9 @@ Proof.
   - injection H as <-. exists [], y, new, b, st. simpl. auto.
 Qed.
 
-Theorem failed_not_cached ts w w' ex e L :
+Theorem failed_not_cached always ts w w' ex e L :
   winv w -> build_in_scope ts w -> load_world w ts = LOk L ->
-  build ts w = (w', ex, BFail e) ->
+  build_with always ts w = (w', ex, BFail e) ->
   exists ex0 x F d,
     ex = (ex0 ++ [x])%list /\ reach_rule L ts x /\
     sdig L (w_rules w) (w_src w) F x = Some d /\
@@ -2218,21 +2397,23 @@ Proof.
   destruct (load_world_inv w ts L Hl) as (stl & Hrr & Hre & Htopo & Hts).
   assert (Hsrcnd : forall n, In n L -> ntype n = TSrc -> ndeps n = []).
   { intros n Hn' Hty. eapply loaded_src_nodeps; eauto. eapply read_roots_nonsrc; eauto. }
-  destruct (build_unfold ts w L Hl Hwf) as [new [Hn Hbu]].
+  destruct (build_unfold always ts w L Hl Hwf) as [new [Hn Hbu]].
   destruct (post_targets_spec L Hwf ts [] new Hn) as [Hok _].
   rewrite Hb in Hbu.
-  destruct (LoadProofs.run bstate (bstate * failure) (visit L (w_rules w) (w_src w)) new ([], st0_of w))
+  destruct (LoadProofs.run bstate (bstate * failure) (visit L (w_rules w) (w_src w) always (w_now w))
+              new ([], st0_of w))
     as [[b1 st1]|[st1 e1]] eqn:Hrun; [discriminate|].
   injection Hbu as -> -> ->.
   destruct (run_fail_split _ _ _ _ _ Hrun) as (done & x & rest & b1 & st2 & -> & Hrd & Hvx).
   (* the state before the failing visit *)
   assert (Hnodes : forall y, In y (done ++ x :: rest) -> find_node (nname y) L = Some y).
   { intros y Hy. destruct (po_nodes _ _ _ _ Hok y Hy) as [H _]. exact H. }
-  pose proof (run_inv L (w_rules w) (w_src w) HG done [] (st0_of w) (binv_st0 _ _ _ w Hw)) as Hinv2.
+  pose proof (run_inv L (w_rules w) (w_src w) HG always (w_now w) done [] (st0_of w)
+                (binv_st0 _ _ _ w Hw)) as Hinv2.
   rewrite Hrd in Hinv2.
   assert (Hinv : binv L (w_rules w) (w_src w) st2).
   { apply Hinv2. intros y Hy. apply Hnodes. apply in_app_iff. now left. }
-  destruct (run_memo _ _ _ _ _ _ _ _ Hrd) as [_ Hmemo].
+  destruct (run_memo _ _ _ _ _ _ _ _ _ _ Hrd) as [_ Hmemo].
   assert (Hx : find_node (nname x) L = Some x) by (apply Hnodes; apply in_app_iff; right; now left).
   assert (Hxin : In x L) by (apply find_node_Some in Hx; tauto).
   assert (Hdeps : forall k, In k (ndeps x) -> exists d, lookup k (b_memo st2) = Some d).
@@ -2245,19 +2426,21 @@ Proof.
   rewrite dep_digests_collect, Hdd in Hvx.
   destruct (ntype x) eqn:Hty.
   - destruct (wg_src _ _ _ HG x Hxin Hty) as [s Hsrc]. rewrite Hsrc in Hvx. discriminate.
-  - destruct (wg_rule _ _ _ HG x Hxin Hty) as (r & Hr & Hdeps'). rewrite Hr in Hvx. cbv zeta in Hvx.
-    set (d := DRuleD (rdigest_of r) (canon_deps dd) (node_outs (w_rules w) x)) in *.
-    fold (hitb st2 d) in Hvx. destruct (hitb st2 d); [discriminate|].
+  - destruct (wg_rule _ _ _ HG x Hxin Hty) as (r & Hr & Hdeps'). rewrite Hr in Hvx.
+    destruct (rule_extras_total L (w_rules w) (w_src w) HG _ r (b_out st2) Hr) as [exr Hexr].
+    rewrite Hexr in Hvx. cbv zeta in Hvx.
+    set (d := DRuleD (rdigest_of r) (canon_deps dd) (node_outs (w_rules w) x) exr) in *.
+    destruct (hitb (w_now w) st2 d && negb always); [discriminate|].
     assert (Hd : exists F, sdig L (w_rules w) (w_src w) F (nname x) = Some d).
     { destruct Hinv as [[F HF] _ _ _]. exists (S F).
-      exact (visit_digest L (w_rules w) (w_src w) x r _ dd F Hx Hty Hr HF Hdd). }
+      exact (visit_digest L (w_rules w) (w_src w) HG x r _ dd F _ exr Hx Hty Hr HF Hdd Hexr). }
     destruct Hd as [F Hd].
     assert (Hreach : reach_rule L ts (nname x)).
     { apply (reach_rule_visited L ts _ (nname x) Hwf Hts Hsrcnd Hn).
       exists x. repeat split; auto. apply in_app_iff. right. now left. }
-    unfold exec_rule, log in Hvx. cbn [b_out b_cache b_clock b_memo b_exec] in Hvx.
+    unfold exec_rule, log in Hvx. cbn [b_out b_cache b_clock b_memo b_exec b_times] in Hvx.
     pose proof (find_rule_name _ _ _ Hr) as Hrn.
-    destruct (r_kind r) as [files sels incs|ds] eqn:Hk.
+    destruct (r_kind r) as [files sels igns incs|ds] eqn:Hk.
     + destruct Hdeps' as (fl & Hex & _). rewrite Hex in Hvx.
       destruct (fileset_content L (w_rules w) (w_src w) (b_out st2) fl incs) as [l|e2] eqn:Hc.
       * rewrite Hrn in Hvx.
@@ -2275,23 +2458,40 @@ Qed.
 
 (** * After a successful build every reachable rule is validly cached *)
 
-Theorem built_is_cached ts w w1 e1 L :
-  winv w -> build_in_scope ts w -> load_world w ts = LOk L -> build ts w = (w1, e1, BOk) ->
-  forall r F d, reach_rule L ts r -> sdig L (w_rules w) (w_src w) F r = Some d ->
-    valid_cached (w_out w1) (w_cache w1) d.
+Theorem built_is_cached always ts w w1 e1 L :
+  winv w -> build_in_scope ts w -> load_world w ts = LOk L ->
+  build_with always ts w = (w1, e1, BOk) ->
+  forall r F d, reach_rule L ts r -> sdig L (w_rules w) (w_src w) F r = Some d -> wvalid w1 d.
 Proof.
   intros Hw Hs Hl Hb r F d Hreach Hd.
-  destruct (build_ok_run ts w w1 e1 L Hw Hs Hl Hb)
+  destruct (build_ok_run always ts w w1 e1 L Hw Hs Hl Hb)
     as (new & b1 & st1 & HG & Hn & Hok & Hrun & -> & -> & Hinv & Htk).
   destruct (load_world_inv w ts L Hl) as (stl & Hrr & Hre & Htopo & Hts).
   assert (Hsrcnd : forall n, In n L -> ntype n = TSrc -> ndeps n = []).
   { intros n Hn' Hty. eapply loaded_src_nodeps; eauto. eapply read_roots_nonsrc; eauto. }
   apply (reach_rule_visited L ts new r (wg_wf _ _ _ HG) Hts Hsrcnd Hn) in Hreach.
   destruct Hreach as (x & Hx & <- & Hty).
-  destruct (tk_memo_done _ _ _ _ _ _ _ Htk x Hx) as [d' Hd'].
+  destruct (tk_memo_done _ _ _ _ _ _ _ _ _ Htk x Hx) as [d' Hd'].
   destruct Hinv as [[F1 HF1] _ _ _]. pose proof (HF1 _ _ Hd') as Hd2.
   pose proof (sdig_unique _ _ _ _ _ _ _ _ Hd Hd2) as ->.
-  apply (hitb_valid st1 d'). exact (tk_valid _ _ _ _ _ _ _ Htk x d' Hx Hty Hd').
+  unfold wvalid. simpl.
+  apply (hitb_valid (w_now w) st1 d'). exact (tk_valid _ _ _ _ _ _ _ _ _ Htk x d' Hx Hty Hd').
+Qed.
+
+(** * Expiry only ever causes re-execution *)
+
+(** An expired entry is not a hit: the rule is executed (and what it
+    writes is again what a clean build writes, by [incremental_eq_clean],
+    which holds for every history, also those in which time passes). *)
+Theorem expired_is_rebuilt always ts w w1 e1 L :
+  winv w -> build_in_scope ts w -> load_world w ts = LOk L ->
+  build_with always ts w = (w1, e1, BOk) ->
+  forall r F d, reach_rule L ts r -> sdig L (w_rules w) (w_src w) F r = Some d ->
+    live (w_now w) (w_times w) d = false -> In r e1.
+Proof.
+  intros Hw Hs Hl Hb r F d Hreach Hd Hlive.
+  apply (exec_iff always ts w w1 e1 L Hw Hs Hl Hb). split; [assumption|].
+  exists F, d. split; [assumption|]. left. intros (b & _ & Hlv & _). congruence.
 Qed.
 
 (** * The statements over whole histories (as used by Props/C10.v) *)
@@ -2300,57 +2500,63 @@ Theorem cache_valid_hist h rs src :
   hist_in_scope h (empty_world rs src) -> winv (run h (empty_world rs src)).
 Proof. intros Hs. apply run_hist_inv; [apply winv_empty|assumption]. Qed.
 
-Theorem incremental_eq_clean_hist h rs src ts w1 e1 L :
+Theorem incremental_eq_clean_hist h rs src always always' ts w1 e1 L :
   hist_in_scope h (empty_world rs src) ->
   let w := run h (empty_world rs src) in
-  build_in_scope ts w -> load_world w ts = LOk L -> build ts w = (w1, e1, BOk) ->
-  exists w2 e2, build ts (clean w) = (w2, e2, BOk) /\
-    forall r rl fs ss is',
-      reach_rule L ts r -> find_rule r (w_rules w) = Some rl -> r_kind rl = KFileSet fs ss is' ->
+  build_in_scope ts w -> load_world w ts = LOk L -> build_with always ts w = (w1, e1, BOk) ->
+  exists w2 e2, build_with always' ts (clean w) = (w2, e2, BOk) /\
+    forall r rl fs ss gs is',
+      reach_rule L ts r -> find_rule r (w_rules w) = Some rl -> r_kind rl = KFileSet fs ss gs is' ->
       exists l, content_at (w_out w1) (fileset_out r) = Some (CList l) /\
                 content_at (w_out w2) (fileset_out r) = Some (CList l).
 Proof.
   intros Hh w Hs Hl Hb. eapply incremental_eq_clean; eauto. now apply cache_valid_hist.
 Qed.
 
-Theorem noop_rebuild_hist h rs src ts w1 e1 :
+Theorem noop_rebuild_hist h rs src always ts w1 e1 :
   hist_in_scope h (empty_world rs src) ->
   let w := run h (empty_world rs src) in
-  build_in_scope ts w -> build ts w = (w1, e1, BOk) -> build ts w1 = (w1, [], BOk).
+  build_in_scope ts w -> build_with always ts w = (w1, e1, BOk) -> build ts w1 = (w1, [], BOk).
 Proof. intros Hh w Hs Hb. eapply noop_rebuild; eauto. now apply cache_valid_hist. Qed.
 
-Theorem exec_iff_hist h rs src ts w1 e1 L :
+Theorem exec_iff_hist h rs src always ts w1 e1 L :
   hist_in_scope h (empty_world rs src) ->
   let w := run h (empty_world rs src) in
-  build_in_scope ts w -> load_world w ts = LOk L -> build ts w = (w1, e1, BOk) ->
+  build_in_scope ts w -> load_world w ts = LOk L -> build_with always ts w = (w1, e1, BOk) ->
   forall r,
     In r e1 <->
     reach_rule L ts r /\
-    exists F d, sdig L (w_rules w) (w_src w) F r = Some d /\
-                ~ valid_cached (w_out w) (w_cache w) d.
+    exists F d, sdig L (w_rules w) (w_src w) F r = Some d /\ (~ wvalid w d \/ always = true).
 Proof. intros Hh w Hs Hl Hb. eapply exec_iff; eauto. now apply cache_valid_hist. Qed.
 
-Theorem built_is_cached_hist h rs src ts w1 e1 L :
+Theorem built_is_cached_hist h rs src always ts w1 e1 L :
   hist_in_scope h (empty_world rs src) ->
   let w := run h (empty_world rs src) in
-  build_in_scope ts w -> load_world w ts = LOk L -> build ts w = (w1, e1, BOk) ->
-  forall r F d, reach_rule L ts r -> sdig L (w_rules w) (w_src w) F r = Some d ->
-    valid_cached (w_out w1) (w_cache w1) d.
+  build_in_scope ts w -> load_world w ts = LOk L -> build_with always ts w = (w1, e1, BOk) ->
+  forall r F d, reach_rule L ts r -> sdig L (w_rules w) (w_src w) F r = Some d -> wvalid w1 d.
 Proof. intros Hh w Hs Hl Hb. eapply built_is_cached; eauto. now apply cache_valid_hist. Qed.
 
-Theorem failed_not_cached_hist h rs src ts w' ex e L :
+Theorem expired_is_rebuilt_hist h rs src always ts w1 e1 L :
   hist_in_scope h (empty_world rs src) ->
   let w := run h (empty_world rs src) in
-  build_in_scope ts w -> load_world w ts = LOk L -> build ts w = (w', ex, BFail e) ->
+  build_in_scope ts w -> load_world w ts = LOk L -> build_with always ts w = (w1, e1, BOk) ->
+  forall r F d, reach_rule L ts r -> sdig L (w_rules w) (w_src w) F r = Some d ->
+    live (w_now w) (w_times w) d = false -> In r e1.
+Proof. intros Hh w Hs Hl Hb. eapply expired_is_rebuilt; eauto. now apply cache_valid_hist. Qed.
+
+Theorem failed_not_cached_hist h rs src always ts w' ex e L :
+  hist_in_scope h (empty_world rs src) ->
+  let w := run h (empty_world rs src) in
+  build_in_scope ts w -> load_world w ts = LOk L -> build_with always ts w = (w', ex, BFail e) ->
   exists ex0 x F d,
     ex = (ex0 ++ [x])%list /\ reach_rule L ts x /\
     sdig L (w_rules w) (w_src w) F x = Some d /\ cache_get d (w_cache w') = None.
 Proof. intros Hh w Hs Hl Hb. eapply failed_not_cached; eauto. now apply cache_valid_hist. Qed.
 
 (** a build never runs out of the model's fuel *)
-Theorem build_total ts w : snd (build ts w) <> BOutOfFuel.
+Theorem build_total always ts w : snd (build_with always ts w) <> BOutOfFuel.
 Proof.
-  unfold build. destruct (load_world w ts) as [|es|L] eqn:Hl; simpl; try discriminate.
+  unfold build_with. destruct (load_world w ts) as [|es|L] eqn:Hl; simpl; try discriminate.
   - exfalso. unfold load_world, load_nodes in Hl.
     destruct (read_roots (graph_of w) [""]) as [st|] eqn:Hr;
       [|now apply (read_roots_terminates (graph_of w) [""])].
@@ -2364,39 +2570,44 @@ Proof.
     destruct (LoadProofs.run _ _ _ new _) as [[b st']|[st' e]]; simpl; discriminate.
 Qed.
 
-(** * The scope hypothesis as a computation *)
-
-Lemma build_in_scopeb_ok ts w : build_in_scopeb ts w = true -> build_in_scope ts w.
-Proof. unfold build_in_scopeb, build_in_scope. destruct (load_world w ts); auto. Qed.
-
-Lemma hist_in_scopeb_ok h : forall w, hist_in_scopeb h w = true -> hist_in_scope h w.
-Proof.
-  induction h as [|o h IH]; intros w H; simpl in *; [exact I|].
-  apply andb_true_iff in H. destruct H as [H1 H2]. split; [|now apply IH].
-  destruct o; auto. now apply build_in_scopeb_ok.
-Qed.
-
-(** * What did not change is not rebuilt *)
+(** * What did not change is not rebuilt; what changed is *)
 
 Definition is_edit (o : op) : bool :=
   match o with OSetSrc _ _ | OSetRules _ => true | _ => false end.
 
+(** edits, and time passing *)
+Definition is_edit_or_time (o : op) : bool :=
+  match o with OSetSrc _ _ | OSetRules _ | OAdvance _ => true | _ => false end.
+
 Lemma run_edits_same edits : forall w,
-  forallb is_edit edits = true ->
+  forallb is_edit_or_time edits = true ->
   w_out (run edits w) = w_out w /\ w_cache (run edits w) = w_cache w /\
-  w_clock (run edits w) = w_clock w.
+  w_clock (run edits w) = w_clock w /\ w_times (run edits w) = w_times w.
 Proof.
   induction edits as [|o edits IH]; intros w H; simpl in *; [auto|].
   apply andb_true_iff in H. destruct H as [Ho Hr].
-  destruct (IH (step w o) Hr) as (A & B & C). rewrite A, B, C.
+  destruct (IH (step w o) Hr) as (A & B & C & D). rewrite A, B, C, D.
   destruct o; simpl in *; try discriminate; auto.
 Qed.
 
-(** After a successful build, source and rule edits (outputs left alone),
-    and another successful build: a rule that was reachable before and whose
-    action digest is the same as before is not executed. *)
-Theorem unchanged_not_rebuilt ts w w1 e1 L edits ts2 w3 e3 L2 :
-  winv w -> build_in_scope ts w -> load_world w ts = LOk L -> build ts w = (w1, e1, BOk) ->
+Lemma is_edit_time edits : forallb is_edit edits = true -> forallb is_edit_or_time edits = true.
+Proof.
+  induction edits as [|o edits IH]; simpl; [auto|]. intros H. apply andb_true_iff in H.
+  destruct H as [Ho Hr]. rewrite (IH Hr). destruct o; simpl in *; try discriminate; reflexivity.
+Qed.
+
+Lemma run_edits_now edits : forall w, forallb is_edit edits = true -> w_now (run edits w) = w_now w.
+Proof.
+  induction edits as [|o edits IH]; intros w H; simpl in *; [auto|].
+  apply andb_true_iff in H. destruct H as [Ho Hr]. rewrite (IH _ Hr).
+  destruct o; simpl in *; try discriminate; auto.
+Qed.
+
+(** After a successful build, source and rule edits (outputs left alone, no
+    time passing), and another successful build: a rule that was reachable
+    before and whose action digest is the same as before is not executed. *)
+Theorem unchanged_not_rebuilt always ts w w1 e1 L edits ts2 w3 e3 L2 :
+  winv w -> build_in_scope ts w -> load_world w ts = LOk L -> build_with always ts w = (w1, e1, BOk) ->
   forallb is_edit edits = true ->
   let w2 := run edits w1 in
   build_in_scope ts2 w2 -> load_world w2 ts2 = LOk L2 -> build ts2 w2 = (w3, e3, BOk) ->
@@ -2406,22 +2617,81 @@ Theorem unchanged_not_rebuilt ts w w1 e1 L edits ts2 w3 e3 L2 :
     ~ In r e3.
 Proof.
   intros Hw Hs Hl Hb Hed w2 Hs2 Hl2 Hb2 r F d F2 Hreach Hd Hd2 Hin.
-  pose proof (built_is_cached ts w w1 e1 L Hw Hs Hl Hb r F d Hreach Hd) as Hvalid.
-  destruct (run_edits_same edits w1 Hed) as (A & B & C). fold w2 in A, B, C.
+  pose proof (built_is_cached always ts w w1 e1 L Hw Hs Hl Hb r F d Hreach Hd) as Hvalid.
+  destruct (run_edits_same edits w1 (is_edit_time _ Hed)) as (A & B & C & D). fold w2 in A, B, C, D.
+  pose proof (run_edits_now edits w1 Hed) as E. fold w2 in E.
   assert (Hw1 : winv w1).
-  { pose proof (build_inv ts w Hw Hs) as H. now rewrite Hb in H. }
+  { pose proof (build_inv always ts w Hw Hs) as H. now rewrite Hb in H. }
   assert (Hw2 : winv w2).
   { unfold winv. rewrite A, B, C. exact Hw1. }
-  apply (exec_iff ts2 w2 w3 e3 L2 Hw2 Hs2 Hl2 Hb2) in Hin.
+  apply (exec_iff false ts2 w2 w3 e3 L2 Hw2 Hs2 Hl2 Hb2) in Hin.
   destruct Hin as [_ (F' & d' & Hd' & Hnv)].
   pose proof (sdig_unique _ _ _ _ _ _ _ _ Hd2 Hd') as <-.
-  apply Hnv. now rewrite A, B.
+  destruct Hnv as [Hnv|Hnv]; [|discriminate].
+  apply Hnv. unfold wvalid. rewrite A, B, D, E. exact Hvalid.
 Qed.
 
-Theorem unchanged_not_rebuilt_hist h rs src ts w1 e1 L edits ts2 w3 e3 L2 :
+Lemma entry_ok_fs out d b nm fs ss gs is' dl outs ex :
+  entry_ok out d b -> d = DRuleD (RDFileSet nm fs ss gs is') dl outs ex ->
+  exists s, b = [(fileset_out nm, s)].
+Proof.
+  intros (L0 & rules0 & src0 & x0 & n0 & r0 & f & _ & Hn & Hty & Hr & Hd & Hk) ->.
+  destruct (sdig_of_rule _ _ _ _ _ _ _ _ Hn Hty Hr Hd) as (f' & dd & ex' & _ & _ & _ & E).
+  injection E as Erd _ _ _. unfold rdigest_of in Erd.
+  pose proof (find_rule_name _ _ _ Hr) as Hnm.
+  destruct (r_kind r0); [|discriminate]. injection Erd as -> _ _ _ _.
+  destruct Hk as (l & s & -> & _). rewrite <- Hnm. eauto.
+Qed.
+
+(** After a successful build, source and rule edits, any amount of time
+    (outputs left alone) and another successful build of any targets: a file
+    set that was reachable before, is reachable now, and whose action digest
+    differs from the one it had, is executed. *)
+Theorem changed_is_rebuilt always always2 ts w w1 e1 L edits ts2 w3 e3 L2 :
+  winv w -> build_in_scope ts w -> load_world w ts = LOk L -> build_with always ts w = (w1, e1, BOk) ->
+  forallb is_edit_or_time edits = true ->
+  let w2 := run edits w1 in
+  build_in_scope ts2 w2 -> load_world w2 ts2 = LOk L2 -> build_with always2 ts2 w2 = (w3, e3, BOk) ->
+  forall r rl0 fs0 ss0 gs0 is0 rl fs ss gs is' F d F2 d2,
+    reach_rule L ts r -> reach_rule L2 ts2 r ->
+    find_rule r (w_rules w) = Some rl0 -> r_kind rl0 = KFileSet fs0 ss0 gs0 is0 ->
+    find_rule r (w_rules w2) = Some rl -> r_kind rl = KFileSet fs ss gs is' ->
+    sdig L (w_rules w) (w_src w) F r = Some d ->
+    sdig L2 (w_rules w2) (w_src w2) F2 r = Some d2 ->
+    d <> d2 -> In r e3.
+Proof.
+  intros Hw Hs Hl Hb Hed w2 Hs2 Hl2 Hb2 r rl0 fs0 ss0 gs0 is0 rl fs ss gs is' F d F2 d2
+         Hreach Hreach2 Hr0 Hk0 Hr2 Hk2 Hd Hd2 Hne.
+  pose proof (built_is_cached always ts w w1 e1 L Hw Hs Hl Hb r F d Hreach Hd) as Hvalid.
+  destruct (run_edits_same edits w1 Hed) as (A & B & C & D). fold w2 in A, B, C, D.
+  assert (Hw1 : winv w1).
+  { pose proof (build_inv always ts w Hw Hs) as H. now rewrite Hb in H. }
+  assert (Hw2 : winv w2).
+  { unfold winv. rewrite A, B, C. exact Hw1. }
+  apply (exec_iff always2 ts2 w2 w3 e3 L2 Hw2 Hs2 Hl2 Hb2). split; [assumption|].
+  exists F2, d2. split; [assumption|]. left. unfold wvalid. rewrite A, B, D. intros Hvalid2.
+  destruct Hw1 as [Hc1 (_ & _ & Huniq)].
+  (* shapes of the two digests and of their entries *)
+  destruct Hreach as (t & n & _ & _ & Hn & Hty).
+  destruct (sdig_of_rule _ _ _ _ _ _ _ _ Hn Hty Hr0 Hd) as (f1 & dd1 & ex1 & _ & _ & _ & E1).
+  destruct Hreach2 as (t2 & n2 & _ & _ & Hn2 & Hty2).
+  destruct (sdig_of_rule _ _ _ _ _ _ _ _ Hn2 Hty2 Hr2 Hd2) as (f2 & dd2 & ex2 & _ & _ & _ & E2).
+  unfold rdigest_of in E1, E2. rewrite Hk0 in E1. rewrite Hk2 in E2.
+  rewrite (find_rule_name _ _ _ Hr0) in E1. rewrite (find_rule_name _ _ _ Hr2) in E2.
+  destruct Hvalid as (b1 & Hg1 & _ & Hsame1). destruct Hvalid2 as (b2 & Hg2 & _ & Hsame2).
+  simpl in Hg1, Hsame1.
+  destruct (entry_ok_fs _ _ _ _ _ _ _ _ _ _ _ (Hc1 _ _ Hg1) E1) as [s1 ->].
+  destruct (entry_ok_fs _ _ _ _ _ _ _ _ _ _ _ (Hc1 _ _ Hg2) E2) as [s2 ->].
+  apply same_built_single in Hsame1, Hsame2.
+  destruct Hsame1 as [c1 Hl1]. destruct Hsame2 as [c2 Hl2']. rewrite Hl1 in Hl2'.
+  injection Hl2' as _ <-.
+  apply Hne. apply (Huniq d d2 _ _ (fileset_out r) s1 Hg1 Hg2); now left.
+Qed.
+
+Theorem unchanged_not_rebuilt_hist h rs src always ts w1 e1 L edits ts2 w3 e3 L2 :
   hist_in_scope h (empty_world rs src) ->
   let w := run h (empty_world rs src) in
-  build_in_scope ts w -> load_world w ts = LOk L -> build ts w = (w1, e1, BOk) ->
+  build_in_scope ts w -> load_world w ts = LOk L -> build_with always ts w = (w1, e1, BOk) ->
   forallb is_edit edits = true ->
   let w2 := run edits w1 in
   build_in_scope ts2 w2 -> load_world w2 ts2 = LOk L2 -> build ts2 w2 = (w3, e3, BOk) ->
@@ -2431,75 +2701,17 @@ Theorem unchanged_not_rebuilt_hist h rs src ts w1 e1 L edits ts2 w3 e3 L2 :
     ~ In r e3.
 Proof. intros Hh w. apply unchanged_not_rebuilt. now apply cache_valid_hist. Qed.
 
-(** * What changed is rebuilt (file sets) *)
-
-Lemma entry_ok_fs out d b nm fs ss is' dl outs :
-  entry_ok out d b -> d = DRuleD (RDFileSet nm fs ss is') dl outs ->
-  exists s, b = [(fileset_out nm, s)].
-Proof.
-  intros (L0 & rules0 & src0 & x0 & n0 & r0 & f & _ & Hn & Hty & Hr & Hd & Hk) ->.
-  destruct (sdig_of_rule _ _ _ _ _ _ _ _ Hn Hty Hr Hd) as (f' & dd & _ & _ & E).
-  injection E as Erd _ _. unfold rdigest_of in Erd.
-  pose proof (find_rule_name _ _ _ Hr) as Hnm.
-  destruct (r_kind r0); [|discriminate]. injection Erd as -> _ _ _.
-  destruct Hk as (l & s & -> & _). rewrite <- Hnm. eauto.
-Qed.
-
-(** After a successful build, source and rule edits (outputs left alone) and
-    another successful build of any targets: a file set that was reachable
-    before, is reachable now, and whose action digest differs from the one
-    it had, is executed. *)
-Theorem changed_is_rebuilt ts w w1 e1 L edits ts2 w3 e3 L2 :
-  winv w -> build_in_scope ts w -> load_world w ts = LOk L -> build ts w = (w1, e1, BOk) ->
-  forallb is_edit edits = true ->
-  let w2 := run edits w1 in
-  build_in_scope ts2 w2 -> load_world w2 ts2 = LOk L2 -> build ts2 w2 = (w3, e3, BOk) ->
-  forall r rl0 fs0 ss0 is0 rl fs ss is' F d F2 d2,
-    reach_rule L ts r -> reach_rule L2 ts2 r ->
-    find_rule r (w_rules w) = Some rl0 -> r_kind rl0 = KFileSet fs0 ss0 is0 ->
-    find_rule r (w_rules w2) = Some rl -> r_kind rl = KFileSet fs ss is' ->
-    sdig L (w_rules w) (w_src w) F r = Some d ->
-    sdig L2 (w_rules w2) (w_src w2) F2 r = Some d2 ->
-    d <> d2 -> In r e3.
-Proof.
-  intros Hw Hs Hl Hb Hed w2 Hs2 Hl2 Hb2 r rl0 fs0 ss0 is0 rl fs ss is' F d F2 d2
-         Hreach Hreach2 Hr0 Hk0 Hr2 Hk2 Hd Hd2 Hne.
-  pose proof (built_is_cached ts w w1 e1 L Hw Hs Hl Hb r F d Hreach Hd) as Hvalid.
-  destruct (run_edits_same edits w1 Hed) as (A & B & C). fold w2 in A, B, C.
-  assert (Hw1 : winv w1).
-  { pose proof (build_inv ts w Hw Hs) as H. now rewrite Hb in H. }
-  assert (Hw2 : winv w2).
-  { unfold winv. rewrite A, B, C. exact Hw1. }
-  apply (exec_iff ts2 w2 w3 e3 L2 Hw2 Hs2 Hl2 Hb2). split; [assumption|].
-  exists F2, d2. split; [assumption|]. rewrite A, B. intros Hvalid2.
-  destruct Hw1 as [Hc1 (_ & _ & Huniq)].
-  (* shapes of the two digests and of their entries *)
-  destruct Hreach as (t & n & _ & _ & Hn & Hty).
-  destruct (sdig_of_rule _ _ _ _ _ _ _ _ Hn Hty Hr0 Hd) as (f1 & dd1 & _ & _ & E1).
-  destruct Hreach2 as (t2 & n2 & _ & _ & Hn2 & Hty2).
-  destruct (sdig_of_rule _ _ _ _ _ _ _ _ Hn2 Hty2 Hr2 Hd2) as (f2 & dd2 & _ & _ & E2).
-  unfold rdigest_of in E1, E2. rewrite Hk0 in E1. rewrite Hk2 in E2.
-  rewrite (find_rule_name _ _ _ Hr0) in E1. rewrite (find_rule_name _ _ _ Hr2) in E2.
-  destruct Hvalid as (b1 & Hg1 & Hsame1). destruct Hvalid2 as (b2 & Hg2 & Hsame2).
-  destruct (entry_ok_fs _ _ _ _ _ _ _ _ _ (Hc1 _ _ Hg1) E1) as [s1 ->].
-  destruct (entry_ok_fs _ _ _ _ _ _ _ _ _ (Hc1 _ _ Hg2) E2) as [s2 ->].
-  apply same_built_single in Hsame1, Hsame2.
-  destruct Hsame1 as [c1 Hl1]. destruct Hsame2 as [c2 Hl2']. rewrite Hl1 in Hl2'.
-  injection Hl2' as _ <-.
-  apply Hne. apply (Huniq d d2 _ _ (fileset_out r) s1 Hg1 Hg2); now left.
-Qed.
-
-Theorem changed_is_rebuilt_hist h rs src ts w1 e1 L edits ts2 w3 e3 L2 :
+Theorem changed_is_rebuilt_hist h rs src always always2 ts w1 e1 L edits ts2 w3 e3 L2 :
   hist_in_scope h (empty_world rs src) ->
   let w := run h (empty_world rs src) in
-  build_in_scope ts w -> load_world w ts = LOk L -> build ts w = (w1, e1, BOk) ->
-  forallb is_edit edits = true ->
+  build_in_scope ts w -> load_world w ts = LOk L -> build_with always ts w = (w1, e1, BOk) ->
+  forallb is_edit_or_time edits = true ->
   let w2 := run edits w1 in
-  build_in_scope ts2 w2 -> load_world w2 ts2 = LOk L2 -> build ts2 w2 = (w3, e3, BOk) ->
-  forall r rl0 fs0 ss0 is0 rl fs ss is' F d F2 d2,
+  build_in_scope ts2 w2 -> load_world w2 ts2 = LOk L2 -> build_with always2 ts2 w2 = (w3, e3, BOk) ->
+  forall r rl0 fs0 ss0 gs0 is0 rl fs ss gs is' F d F2 d2,
     reach_rule L ts r -> reach_rule L2 ts2 r ->
-    find_rule r (w_rules w) = Some rl0 -> r_kind rl0 = KFileSet fs0 ss0 is0 ->
-    find_rule r (w_rules w2) = Some rl -> r_kind rl = KFileSet fs ss is' ->
+    find_rule r (w_rules w) = Some rl0 -> r_kind rl0 = KFileSet fs0 ss0 gs0 is0 ->
+    find_rule r (w_rules w2) = Some rl -> r_kind rl = KFileSet fs ss gs is' ->
     sdig L (w_rules w) (w_src w) F r = Some d ->
     sdig L2 (w_rules w2) (w_src w2) F2 r = Some d2 ->
     d <> d2 -> In r e3.
@@ -2507,28 +2719,41 @@ Proof. intros Hh w. apply changed_is_rebuilt. now apply cache_valid_hist. Qed.
 
 (** Both directions together: exactly the file sets whose action digest
     changed are re-executed. *)
-Theorem minimal_rebuild_hist h rs src ts w1 e1 L edits ts2 w3 e3 L2 :
+Theorem minimal_rebuild_hist h rs src always ts w1 e1 L edits ts2 w3 e3 L2 :
   hist_in_scope h (empty_world rs src) ->
   let w := run h (empty_world rs src) in
-  build_in_scope ts w -> load_world w ts = LOk L -> build ts w = (w1, e1, BOk) ->
+  build_in_scope ts w -> load_world w ts = LOk L -> build_with always ts w = (w1, e1, BOk) ->
   forallb is_edit edits = true ->
   let w2 := run edits w1 in
   build_in_scope ts2 w2 -> load_world w2 ts2 = LOk L2 -> build ts2 w2 = (w3, e3, BOk) ->
-  forall r rl0 fs0 ss0 is0 rl fs ss is' F d F2 d2,
+  forall r rl0 fs0 ss0 gs0 is0 rl fs ss gs is' F d F2 d2,
     reach_rule L ts r -> reach_rule L2 ts2 r ->
-    find_rule r (w_rules w) = Some rl0 -> r_kind rl0 = KFileSet fs0 ss0 is0 ->
-    find_rule r (w_rules w2) = Some rl -> r_kind rl = KFileSet fs ss is' ->
+    find_rule r (w_rules w) = Some rl0 -> r_kind rl0 = KFileSet fs0 ss0 gs0 is0 ->
+    find_rule r (w_rules w2) = Some rl -> r_kind rl = KFileSet fs ss gs is' ->
     sdig L (w_rules w) (w_src w) F r = Some d ->
     sdig L2 (w_rules w2) (w_src w2) F2 r = Some d2 ->
     (In r e3 <-> d <> d2).
 Proof.
-  intros Hh w Hs Hl Hb Hed w2 Hs2 Hl2 Hb2 r rl0 fs0 ss0 is0 rl fs ss is' F d F2 d2
+  intros Hh w Hs Hl Hb Hed w2 Hs2 Hl2 Hb2 r rl0 fs0 ss0 gs0 is0 rl fs ss gs is' F d F2 d2
          Hreach Hreach2 Hr0 Hk0 Hr2 Hk2 Hd Hd2.
   split.
   - intros Hin E. subst d2.
-    exact (unchanged_not_rebuilt_hist h rs src ts w1 e1 L edits ts2 w3 e3 L2 Hh Hs Hl Hb Hed Hs2 Hl2 Hb2
+    exact (unchanged_not_rebuilt_hist h rs src always ts w1 e1 L edits ts2 w3 e3 L2 Hh Hs Hl Hb Hed Hs2 Hl2 Hb2
              r F d F2 Hreach Hd Hd2 Hin).
   - intros Hne.
-    exact (changed_is_rebuilt_hist h rs src ts w1 e1 L edits ts2 w3 e3 L2 Hh Hs Hl Hb Hed Hs2 Hl2 Hb2
-             r rl0 fs0 ss0 is0 rl fs ss is' F d F2 d2 Hreach Hreach2 Hr0 Hk0 Hr2 Hk2 Hd Hd2 Hne).
+    exact (changed_is_rebuilt_hist h rs src always false ts w1 e1 L edits ts2 w3 e3 L2 Hh Hs Hl Hb
+             (is_edit_time _ Hed) Hs2 Hl2 Hb2
+             r rl0 fs0 ss0 gs0 is0 rl fs ss gs is' F d F2 d2 Hreach Hreach2 Hr0 Hk0 Hr2 Hk2 Hd Hd2 Hne).
+Qed.
+
+(** * The scope hypothesis as a computation *)
+
+Lemma build_in_scopeb_ok ts w : build_in_scopeb ts w = true -> build_in_scope ts w.
+Proof. unfold build_in_scopeb, build_in_scope. destruct (load_world w ts); auto. Qed.
+
+Lemma hist_in_scopeb_ok h : forall w, hist_in_scopeb h w = true -> hist_in_scope h w.
+Proof.
+  induction h as [|o h IH]; intros w H; simpl in *; [exact I|].
+  apply andb_true_iff in H. destruct H as [H1 H2]. split; [|now apply IH].
+  destruct o; simpl; auto; now apply build_in_scopeb_ok.
 Qed.
